@@ -1,13 +1,24 @@
 (** Proofs about the field-level document model Repro/Doc.v (C05).
 
-    Part 1: lists, texts, the document level (an edit of paragraph [j] touches
-            nothing outside that paragraph).
-    Part 2: what the text of a newly built field looks like (name spelling, colon,
-            final newline, comment).
-    Part 3: the two paragraph classes: which field a key denotes, what set / remove do
-            to the field list; the invariant of the duplicate-fields class.
-    Part 4: the edit operations, locality, read-back on the edited object, histories. *)
-From Verif Require Import Lib.Base Lib.PyStr Gen.PyChars Repro.Doc Repro.DocInv.
+    Part 1: lists, texts, the document level (an edit of paragraph [j] touches nothing outside
+            that paragraph).
+    Part 2: what the text of a newly built field looks like (name spelling, colon, final
+            newline, comment).
+    Part 3: the two paragraph classes: which field a key denotes, what set / remove do to the
+            field list (the duplicate-fields class rests on Repro/DocDup.v).
+    Part 4: the edit operations set_field_from_raw_string / set_field_to_simple_value /
+            __setitem__ / __delitem__ at paragraph level.
+    Part 5: documents: every successful operation is local; byte-level statements.
+    Part 6: line structure (only the very end of the document may lack its newline).
+    Part 7: histories; reading the edited object.
+    Part 8: values: adding the missing final newline does not change a value; other fields read
+            as before.
+    Part 9: the value the dict interface stores reads back as the Spec's [expected_read].
+    Part 10: re-reading the text of a paragraph ([scan_para]) gives its fields back; every
+            operation keeps fields well-formed. *)
+From Coq Require Import Lia ZifyBool.
+From Verif Require Import Repro.DocSpec.
+From Verif Require Import Lib.Base Lib.PyStr Gen.PyChars Repro.Doc Repro.DocInv Repro.DocDup.
 
 (** * Part 1 : helpers *)
 
@@ -313,6 +324,21 @@ Proof.
   intros [= <- <-]. split; [now symmetry|]. split; [exact Hall|now exists r0].
 Qed.
 
+Lemma name_first_char c : name_first c = true -> name_char c = true.
+Proof. unfold name_first, name_char. intros H. lia. Qed.
+
+Lemma match_field_line_name_ok l n r : match_field_line l = Some (n, r) -> name_ok n = true.
+Proof.
+  unfold match_field_line. destruct l as [|c l0]; [discriminate|].
+  destruct (name_first c) eqn:Hc; [|discriminate].
+  pose proof (span_all name_char (c :: l0)) as Hall.
+  destruct (span name_char (c :: l0)) as [n0 r0] eqn:Es. cbn [fst] in Hall.
+  destruct r0 as [|c' r0]; [discriminate|]. destruct (c' =? COLON)%N; [|discriminate].
+  intros [= <- <-]. cbn [span] in Es. rewrite (name_first_char c Hc) in Es.
+  destruct (span name_char l0) as [a b]. injection Es as <- _. unfold name_ok.
+  now rewrite Hc.
+Qed.
+
 Lemma classify_field b l n r : classify b l = LField n r -> match_field_line l = Some (n, r).
 Proof.
   unfold classify. destruct (is_ws_line l); [discriminate|].
@@ -435,6 +461,7 @@ Lemma parse_new_field_shape comments raw fname cased v :
   length cased = length fname ->
   parse_new_field (comments ++ splitlines py_islinebreak true (cased ++ [COLON] ++ raw)) fname = Ok v ->
   f_name v = cased /\ forallb name_char cased = true
+  /\ (name_ok cased = true /\ forallb ends_nl comments = true)
   /\ f_comment v = concat comments /\ closed (f_comment v) = true
   /\ rest_colon v = true /\ ends_nl (f_rest v) = true
   /\ exists first others r',
@@ -452,6 +479,7 @@ Proof.
   destruct (name_eqb (f_name f) fname) eqn:Hname; [|discriminate]. injection Hb as <-.
   destruct rl as [|first others]; [discriminate|]. cbn [tl] in Hcont.
   destruct (scan_head_first _ _ _ _ Hcont Ha) as [n [r [rest [Hcl [Hbody ->]]]]].
+  pose proof Hcl as Hcl0.
   apply classify_field, match_field_line_some in Hcl. destruct Hcl as [Hfirst [Hn [r' ->]]].
   cbn [f_name f_comment f_rest] in *.
   cbn [forallb] in Hnl. apply andb_true_iff in Hnl. destruct Hnl as [Hfnl Honl].
@@ -463,7 +491,12 @@ Proof.
     change (cased ++ [COLON] ++ raw) with (cased ++ COLON :: raw) in Hcat.
     destruct (first_colon _ _ _ _ Hnc Hcat) as [_ H2].
     apply name_eqb_length in Hname. apply H2. congruence. }
-  split; [exact Hname_eq|]. split; [now rewrite <- Hname_eq|]. split; [reflexivity|].
+  split; [exact Hname_eq|]. split; [now rewrite <- Hname_eq|].
+  split.
+  { split.
+    - rewrite <- Hname_eq. eapply match_field_line_name_ok. eapply classify_field. exact Hcl0.
+    - rewrite forallb_app in Hall. apply andb_true_iff in Hall. now destruct Hall. }
+  split; [reflexivity|].
   split.
   { rewrite forallb_app in Hall. apply andb_true_iff in Hall. destruct Hall as [Hc _].
     now apply forallb_ends_nl_closed. }
@@ -668,7 +701,32 @@ Proof.
 Qed.
 
 Lemma para_inv_fields p : para_inv p = true -> fields_inv (para_fields p) = true.
-Proof. destruct p; [auto|discriminate]. Qed.
+Proof.
+  destruct p as [fs|d]; cbn [para_inv para_fields]; [auto|]. intros H.
+  apply andb_true_iff in H. now destruct H.
+Qed.
+
+Lemma para_inv_PD d :
+  para_inv (PD d) = true ->
+  DWf d /\ nodup_names (map snd (d_order d)) = true /\ forallb rest_colon (map snd (d_order d)) = true.
+Proof.
+  cbn [para_inv]. intros H. apply andb_true_iff in H. destruct H as [H1 H2].
+  apply d_wf_DWf in H1. unfold fields_inv in H2. apply andb_true_iff in H2. now destruct H2.
+Qed.
+
+Lemma lname_has_name n f : lname f = lower n <-> has_name n f = true.
+Proof. unfold has_name, lname. symmetry. apply name_eqb_eq. Qed.
+
+Lemma ids_with_nil_absent n o : ids_with (lower n) o = [] -> absent n (map snd o) = true.
+Proof.
+  intros H. apply ids_with_nil_iff in H. unfold absent.
+  pose proof (existsb_lnames n (map snd o)) as E. rewrite H in E. unfold absent in E.
+  now destruct (forallb (fun f => negb (has_name n f)) (map snd o)).
+Qed.
+
+Lemma map_snd_split (o1 : list (N * field)) id f o2 :
+  map snd (o1 ++ (id, f) :: o2) = map snd o1 ++ f :: map snd o2.
+Proof. now rewrite map_app. Qed.
 
 (** ** which field a key denotes; set, remove *)
 
@@ -685,18 +743,65 @@ Lemma p_get_some p k f :
   exists l1 l2, para_fields p = l1 ++ f :: l2
                 /\ has_name (key_name k) f = true /\ absent (key_name k) l1 = true.
 Proof.
-  destruct p as [fs|d]; [|discriminate]. intros _. cbn [p_get para_fields].
-  unfold nd_get. destruct (unpack_key k true) as [nk|e] eqn:Ek; [|discriminate].
-  apply unpack_key_true in Ek. subst nk. cbn [bind fst].
-  destruct (List.find (has_name (key_name k)) fs) as [g|] eqn:Ef; [|discriminate].
-  intros [= <-]. destruct (find_some_split _ _ _ Ef) as [l1 [l2 [-> [H1 H2]]]].
-  now exists l1, l2.
+  destruct p as [fs|d]; intros Hinv; cbn [p_get para_fields].
+  - unfold nd_get. destruct (unpack_key k true) as [nk|e] eqn:Ek; [|discriminate].
+    apply unpack_key_true in Ek. subst nk. cbn [bind fst].
+    destruct (List.find (has_name (key_name k)) fs) as [g|] eqn:Ef; [|discriminate].
+    intros [= <-]. destruct (find_some_split _ _ _ Ef) as [l1 [l2 [-> [H1 H2]]]].
+    now exists l1, l2.
+  - destruct (para_inv_PD _ Hinv) as [Hd [Hnd _]]. intros H.
+    destruct (d_get_nodup d k true Hd Hnd) as [[_ Hg]|[o1 [id [g [o2 [Ho [Hg [_ Hget]]]]]]]];
+      rewrite H in *; [discriminate|].
+    destruct (idx_hits k); [|discriminate]. injection Hget as ->.
+    exists (map snd o1), (map snd o2). rewrite Ho, map_snd_split.
+    apply lname_has_name in Hg. split; [reflexivity|]. split; [exact Hg|].
+    apply para_inv_fields in Hinv. cbn [para_fields] in Hinv. rewrite Ho, map_snd_split in Hinv.
+    unfold fields_inv in Hinv. apply andb_true_iff in Hinv. destruct Hinv as [Hn _].
+    apply nodup_names_split in Hn. destruct Hn as [Hn _]. unfold has_name in Hg.
+    now rewrite <- (absent_cong _ _ _ Hg).
 Qed.
 
 Lemma p_get_not_amb p k : para_inv p = true -> p_get p k true <> LAmb.
 Proof.
-  destruct p as [fs|d]; [|discriminate]. intros _. cbn [p_get].
-  destruct (nd_get fs k true); discriminate.
+  destruct p as [fs|d]; intros Hinv; cbn [p_get].
+  - destruct (nd_get fs k true); discriminate.
+  - destruct (para_inv_PD _ Hinv) as [Hd [Hnd _]].
+    destruct (d_get_nodup d k true Hd Hnd) as [[_ Hg]|[o1 [id [g [o2 [_ [_ [_ Hg]]]]]]]]; rewrite Hg;
+      [discriminate|]. destruct (idx_hits k); discriminate.
+Qed.
+
+Lemma fields_inv_replace l1 f v l2 :
+  fields_inv (l1 ++ f :: l2) = true -> name_eqb (f_name f) (f_name v) = true ->
+  rest_colon v = true -> fields_inv (l1 ++ v :: l2) = true.
+Proof.
+  unfold fields_inv. intros H Hn Hv. apply andb_true_iff in H. destruct H as [Hnd Hrc].
+  apply andb_true_iff. split.
+  - eapply nodup_names_replace; eassumption.
+  - rewrite forallb_app in *. cbn [forallb] in *.
+    apply andb_true_iff in Hrc. destruct Hrc as [Hr1 Hr2].
+    apply andb_true_iff in Hr2. destruct Hr2 as [_ Hr2]. now rewrite Hr1, Hv, Hr2.
+Qed.
+
+Lemma fields_inv_append fs v :
+  fields_inv fs = true -> absent (f_name v) fs = true -> rest_colon v = true ->
+  fields_inv (map_last add_nl fs ++ [v]) = true.
+Proof.
+  unfold fields_inv. intros H Ha Hv. apply andb_true_iff in H. destruct H as [Hnd Hrc].
+  apply andb_true_iff. split.
+  - now apply nodup_names_append.
+  - rewrite forallb_app. cbn [forallb]. rewrite Hv.
+    rewrite forallb_map_last by apply rest_colon_add_nl. now rewrite Hrc.
+Qed.
+
+Lemma fields_inv_remove l1 f l2 :
+  fields_inv (l1 ++ f :: l2) = true -> fields_inv (l1 ++ l2) = true.
+Proof.
+  unfold fields_inv. intros H. apply andb_true_iff in H. destruct H as [Hnd Hrc].
+  apply andb_true_iff. split.
+  - now apply nodup_names_split in Hnd.
+  - rewrite forallb_app in *. cbn [forallb] in Hrc.
+    apply andb_true_iff in Hrc. destruct Hrc as [Hr1 Hr2].
+    apply andb_true_iff in Hr2. destruct Hr2 as [_ Hr2]. now rewrite Hr1, Hr2.
 Qed.
 
 Lemma p_set_kvpair_spec p k v p' :
@@ -709,40 +814,53 @@ Lemma p_set_kvpair_spec p k v p' :
    \/ (p_get p k true = LOk None /\ absent (key_name k) (para_fields p) = true
        /\ para_fields p' = map_last add_nl (para_fields p) ++ [v])).
 Proof.
-  destruct p as [fs|d]; [|discriminate]. cbn [para_inv p_set_kvpair p_get para_fields].
-  intros Hinv Hv H. bind_inv H. injection Hb as <-. cbn [para_inv para_fields].
-  unfold nd_set_kvpair in Ha. unfold nd_get.
-  destruct (unpack_key k true) as [nk|e] eqn:Ek; [|discriminate].
-  apply unpack_key_true in Ek. subst nk. cbn [bind fst] in *.
-  destruct (name_eqb (key_name k) (f_name v)) eqn:Hn; [|discriminate]. cbn [negb] in Ha.
-  split; [reflexivity|].
-  unfold fields_inv in Hinv. apply andb_true_iff in Hinv. destruct Hinv as [Hnd Hrc].
-  rewrite existsb_neg_forallb in Ha. fold (absent (f_name v) fs) in Ha.
-  rewrite <- (absent_cong _ _ fs Hn) in Ha.
-  destruct (List.find (has_name (key_name k)) fs) as [f|] eqn:Ef.
-  - destruct (find_some_split _ _ _ Ef) as [l1 [l2 [-> [H1 H2]]]].
-    assert (Hab : absent (key_name k) (l1 ++ f :: l2) = false).
-    { rewrite absent_app. cbn [absent forallb]. rewrite H2. cbn. apply andb_false_r. }
-    rewrite Hab in Ha. cbn [negb] in Ha. injection Ha as <-.
-    rewrite (replace_first_split (has_name (f_name v))).
-    + split.
-      * unfold fields_inv. apply andb_true_iff. split.
-        -- eapply nodup_names_replace; [|exact Hnd]. unfold has_name in H2.
+  destruct p as [fs|d]; cbn [p_set_kvpair p_get para_fields]; intros Hinv Hv H;
+    bind_inv H; injection Hb as <-; cbn [para_inv para_fields].
+  - cbn [para_inv] in Hinv. unfold nd_set_kvpair in Ha. unfold nd_get.
+    destruct (unpack_key k true) as [nk|e] eqn:Ek; [|discriminate].
+    apply unpack_key_true in Ek. subst nk. cbn [bind fst] in *.
+    destruct (name_eqb (key_name k) (f_name v)) eqn:Hn; [|discriminate]. cbn [negb] in Ha.
+    split; [reflexivity|].
+    rewrite existsb_neg_forallb in Ha. fold (absent (f_name v) fs) in Ha.
+    rewrite <- (absent_cong _ _ fs Hn) in Ha.
+    destruct (List.find (has_name (key_name k)) fs) as [f|] eqn:Ef.
+    + destruct (find_some_split _ _ _ Ef) as [l1 [l2 [-> [H1 H2]]]].
+      assert (Hab : absent (key_name k) (l1 ++ f :: l2) = false).
+      { rewrite absent_app. cbn [absent forallb]. rewrite H2. cbn. apply andb_false_r. }
+      rewrite Hab in Ha. cbn [negb] in Ha. injection Ha as <-.
+      rewrite (replace_first_split (has_name (f_name v))).
+      * split.
+        -- eapply fields_inv_replace; [exact Hinv| |exact Hv]. unfold has_name in H2.
            apply name_eqb_eq in H2, Hn. apply name_eqb_eq. congruence.
-        -- rewrite forallb_app in *. cbn [forallb] in *.
-           apply andb_true_iff in Hrc. destruct Hrc as [Hr1 Hr2].
-           apply andb_true_iff in Hr2. destruct Hr2 as [_ Hr2]. now rewrite Hr1, Hv, Hr2.
-      * left. exists l1, f, l2. now repeat split.
-    + erewrite forallb_ext; [exact H1|]. intros a. cbn. now rewrite (has_name_cong _ _ a Hn).
-    + now rewrite <- (has_name_cong _ _ f Hn).
-  - apply find_none_forallb in Ef. fold (absent (key_name k) fs) in Ef.
-    rewrite Ef in Ha. cbn [negb] in Ha. injection Ha as <-.
-    split.
-    + unfold fields_inv. apply andb_true_iff. split.
-      * apply nodup_names_append; [now rewrite <- (absent_cong _ _ fs Hn)|exact Hnd].
-      * rewrite forallb_app. cbn [forallb]. rewrite Hv.
-        rewrite forallb_map_last by apply rest_colon_add_nl. now rewrite Hrc.
-    + right. now repeat split.
+        -- left. exists l1, f, l2. now repeat split.
+      * erewrite forallb_ext; [exact H1|]. intros a. cbn. now rewrite (has_name_cong _ _ a Hn).
+      * now rewrite <- (has_name_cong _ _ f Hn).
+    + apply find_none_forallb in Ef. fold (absent (key_name k) fs) in Ef.
+      rewrite Ef in Ha. cbn [negb] in Ha. injection Ha as <-.
+      split.
+      * apply fields_inv_append; [exact Hinv| |exact Hv]. now rewrite <- (absent_cong _ _ fs Hn).
+      * right. now repeat split.
+  - destruct (para_inv_PD _ Hinv) as [Hd [Hnd Hrc]].
+    pose proof (d_set_kvpair_wf _ _ _ _ Hd Ha) as Hd'.
+    destruct (d_set_kvpair_nodup _ _ _ _ Hd Hnd Ha) as [Hn Hcases].
+    split; [exact Hn|].
+    apply para_inv_fields in Hinv. cbn [para_fields] in Hinv.
+    destruct Hcases as [[o1 [id [f [o2 [Ho [Hf [Hget Ho']]]]]]]|[Hnil [Hget Ho']]].
+    + apply lname_has_name in Hf. rewrite Ho, map_snd_split in Hinv.
+      assert (Hab : absent (key_name k) (map snd o1) = true).
+      { pose proof Hinv as Hi. unfold fields_inv in Hi. apply andb_true_iff in Hi. destruct Hi as [Hi _].
+        apply nodup_names_split in Hi. destruct Hi as [Hi _]. unfold has_name in Hf.
+        now rewrite <- (absent_cong _ _ _ Hf). }
+      split.
+      * apply andb_true_iff. split; [now apply d_wf_DWf|]. rewrite Ho', map_snd_split.
+        eapply fields_inv_replace; [exact Hinv| |exact Hv]. unfold has_name in Hf.
+        apply name_eqb_eq in Hf, Hn. apply name_eqb_eq. congruence.
+      * left. exists (map snd o1), f, (map snd o2). rewrite Ho, Ho', !map_snd_split. now repeat split.
+    + pose proof (ids_with_nil_absent _ _ Hnil) as Hab.
+      split.
+      * apply andb_true_iff. split; [now apply d_wf_DWf|]. rewrite Ho', map_app, ensure_nl_fields. cbn [map snd].
+        apply fields_inv_append; [exact Hinv| |exact Hv]. now rewrite <- (absent_cong _ _ _ Hn).
+      * right. rewrite Ho', map_app, ensure_nl_fields. now repeat split.
 Qed.
 
 Lemma p_remove_spec p k p' :
@@ -751,24 +869,67 @@ Lemma p_remove_spec p k p' :
   exists l1 f l2, para_fields p = l1 ++ f :: l2 /\ has_name (key_name k) f = true
                   /\ absent (key_name k) l1 = true /\ para_fields p' = l1 ++ l2.
 Proof.
-  destruct p as [fs|d]; [|discriminate]. cbn [para_inv p_remove para_fields].
-  intros Hinv H. bind_inv H. injection Hb as <-. cbn [para_inv para_fields].
-  unfold nd_remove in Ha.
-  destruct (unpack_key k true) as [nk|e] eqn:Ek; [|discriminate].
-  apply unpack_key_true in Ek. subst nk. cbn [bind fst] in *.
-  destruct (existsb (has_name (key_name k)) fs) eqn:Ex; [|discriminate]. injection Ha as <-.
-  destruct (List.find (has_name (key_name k)) fs) as [f|] eqn:Ef.
-  - destruct (find_some_split _ _ _ Ef) as [l1 [l2 [-> [H1 H2]]]].
-    rewrite remove_first_split by assumption.
-    unfold fields_inv in *. apply andb_true_iff in Hinv. destruct Hinv as [Hnd Hrc].
+  destruct p as [fs|d]; cbn [p_remove para_fields]; intros Hinv H;
+    bind_inv H; injection Hb as <-; cbn [para_inv para_fields].
+  - cbn [para_inv] in Hinv. unfold nd_remove in Ha.
+    destruct (unpack_key k true) as [nk|e] eqn:Ek; [|discriminate].
+    apply unpack_key_true in Ek. subst nk. cbn [bind fst] in *.
+    destruct (existsb (has_name (key_name k)) fs) eqn:Ex; [|discriminate]. injection Ha as <-.
+    destruct (List.find (has_name (key_name k)) fs) as [f|] eqn:Ef.
+    + destruct (find_some_split _ _ _ Ef) as [l1 [l2 [-> [H1 H2]]]].
+      rewrite remove_first_split by assumption.
+      split; [now apply fields_inv_remove in Hinv|]. now exists l1, f, l2.
+    + apply find_none_forallb in Ef. rewrite existsb_neg_forallb, Ef in Ex. discriminate.
+  - destruct (para_inv_PD _ Hinv) as [Hd [Hnd Hrc]].
+    pose proof (d_remove_wf _ _ _ Hd Ha) as Hd'.
+    destruct (d_remove_nodup _ _ _ Hd Hnd Ha) as [o1 [id [f [o2 [Ho [Hf Ho']]]]]].
+    apply para_inv_fields in Hinv. cbn [para_fields] in Hinv. rewrite Ho, map_snd_split in Hinv.
+    apply lname_has_name in Hf.
     split.
-    + apply andb_true_iff. split.
-      * now apply nodup_names_split in Hnd.
-      * rewrite forallb_app in *. cbn [forallb] in Hrc.
-        apply andb_true_iff in Hrc. destruct Hrc as [Hr1 Hr2].
-        apply andb_true_iff in Hr2. destruct Hr2 as [_ Hr2]. now rewrite Hr1, Hr2.
-    + now exists l1, f, l2.
-  - apply find_none_forallb in Ef. rewrite existsb_neg_forallb, Ef in Ex. discriminate.
+    + apply andb_true_iff. split; [now apply d_wf_DWf|]. rewrite Ho', map_app.
+      now apply fields_inv_remove in Hinv.
+    + exists (map snd o1), f, (map snd o2). rewrite Ho, Ho', map_snd_split, map_app.
+      repeat split; try assumption.
+      unfold fields_inv in Hinv. apply andb_true_iff in Hinv. destruct Hinv as [Hi _].
+      apply nodup_names_split in Hi. destruct Hi as [Hi _]. unfold has_name in Hf.
+      now rewrite <- (absent_cong _ _ _ Hf).
+Qed.
+
+(** reading through the dict interface = looking the name up in the field list *)
+Definition plain_key (k : key) : bool :=
+  match k with KStr _ => true | KIdx _ i => (i =? 0)%Z end.
+
+Definition read_name (fs : list field) (m : str) : option str :=
+  option_map value_str (List.find (has_name m) fs).
+
+Lemma getitem_fields p k :
+  para_inv p = true -> plain_key k = true ->
+  getitem p k = match read_name (para_fields p) (key_name k) with
+                | Some s => Ok s | None => Err KeyError end.
+Proof.
+  intros Hinv Hk. unfold getitem, read_name.
+  set (k' := match k with KStr n => KIdx n 0 | KIdx _ _ => k end).
+  assert (Hk' : key_name k' = key_name k) by (destruct k; reflexivity).
+  destruct p as [fs|d]; cbn [p_get para_fields].
+  - unfold nd_get.
+    assert (Hu : unpack_key k' true = Ok (key_name k, None)).
+    { subst k'. destruct k as [n|n i]; cbn [unpack_key key_name]; [reflexivity|]. cbn in Hk. now rewrite Hk. }
+    rewrite Hu. cbn [bind fst]. now destruct (List.find (has_name (key_name k)) fs).
+  - destruct (para_inv_PD _ Hinv) as [Hd [Hnd _]].
+    assert (Hhit : idx_hits k' = true).
+    { subst k'. destruct k as [n|n i]; [reflexivity|]. cbn in Hk. unfold idx_hits. cbn. now rewrite Hk. }
+    destruct (d_get_nodup d k' false Hd Hnd) as [[Hnil Hg]|[o1 [id [f [o2 [Ho [Hf [_ Hg]]]]]]]];
+      rewrite Hg, ?Hhit; rewrite Hk' in *.
+    + apply ids_with_nil_absent in Hnil.
+      destruct (List.find (has_name (key_name k)) (map snd (d_order d))) as [g|] eqn:Ef; [|reflexivity].
+      apply find_some_split in Ef. destruct Ef as [m1 [m2 [E [_ Hgn]]]]. rewrite E, absent_app in Hnil.
+      cbn [absent forallb] in Hnil. rewrite Hgn in Hnil. cbn in Hnil. now rewrite andb_false_r in Hnil.
+    + apply lname_has_name in Hf. rewrite Ho, map_snd_split.
+      apply para_inv_fields in Hinv. cbn [para_fields] in Hinv. rewrite Ho, map_snd_split in Hinv.
+      unfold fields_inv in Hinv. apply andb_true_iff in Hinv. destruct Hinv as [Hi _].
+      apply nodup_names_split in Hi. destruct Hi as [Hi _].
+      rewrite find_split; [reflexivity| |exact Hf].
+      unfold has_name in Hf. rewrite (absent_cong _ _ _ Hf) in Hi. exact Hi.
 Qed.
 
 (** reading a field that is there: any spelling of the name, with or without index 0 *)
@@ -776,29 +937,14 @@ Lemma getitem_spec p k l1 f l2 :
   para_inv p = true ->
   para_fields p = l1 ++ f :: l2 -> has_name (key_name k) f = true ->
   absent (key_name k) l1 = true ->
-  match k with KStr _ => true | KIdx _ i => (i =? 0)%Z end = true ->
+  plain_key k = true ->
   getitem p k = Ok (value_str f).
 Proof.
-  destruct p as [fs|d]; [|discriminate]. cbn [para_fields]. intros _ -> Hf Hl1 Hk.
-  unfold getitem. cbn [p_get]. unfold nd_get.
-  assert (Hu : unpack_key (match k with KStr n => KIdx n 0 | KIdx _ _ => k end) true
-               = Ok (key_name k, None)).
-  { destruct k as [n|n i]; cbn [unpack_key key_name]; [reflexivity|]. now rewrite Hk. }
-  rewrite Hu. cbn [bind fst]. now rewrite find_split.
+  intros Hinv Hpf Hf Hl1 Hk. rewrite getitem_fields by assumption.
+  unfold read_name. now rewrite Hpf, find_split.
 Qed.
 
 (** * Part 4 : the edit operations *)
-
-(** the lines after the first one all belong to the value (continuation lines, comment lines
-    between them, a continuation line last): then the stored field is the given text as a whole *)
-Definition body_class (l : str) : bool :=
-  match classify true l with LComment | LCont => true | _ => false end.
-Definition cont_class (l : str) : bool :=
-  match classify true l with LCont => true | _ => false end.
-Definition body_ok (others : list str) : bool :=
-  is_nil others
-  || (forallb body_class others
-      && match last_opt others with Some l => cont_class l | None => false end).
 
 Lemma scan_body_cons l ls pend acc :
   scan_body (l :: ls) pend acc =
@@ -876,7 +1022,8 @@ Lemma set_raw_core_spec p k raw comments pres fc p' :
   exists v orig, own_lines v = true /\ new_for p k p' v orig
                  /\ f_comment v = core_comment comments pres fc orig
                  /\ (body_ok (tl (splitlines py_islinebreak true (f_name v ++ [COLON] ++ raw))) = true
-                     -> f_rest v = COLON :: raw).
+                     -> f_rest v = COLON :: raw)
+                 /\ p_get p k true = LOk orig.
 Proof.
   intros Hinv Hcs H. unfold set_raw_core in H.
   destruct (p_get p k true) as [original| |e] eqn:Eget;
@@ -889,7 +1036,7 @@ Proof.
     destruct (p_get_some _ _ _ Hinv Eget) as [l1 [l2 [_ [Hf _]]]].
     now apply name_eqb_length in Hf. }
   destruct (parse_new_field_shape _ _ _ _ _ Hcs Ha Hlen Hba)
-    as [Hn0 [Hnc0 [Hc0 [Hcl0 [Hrc0 [Hnl0 [first [others [r' [Hlines [Hfirst Hbody]]]]]]]]]]].
+    as [Hn0 [Hnc0 [_ [Hc0 [Hcl0 [Hrc0 [Hnl0 [first [others [r' [Hlines [Hfirst Hbody]]]]]]]]]]]].
   (* the comment step keeps name and rest *)
   assert (Hv : f_name v = cased /\ f_rest v = f_rest v0 /\ closed (f_comment v) = true
                /\ f_comment v = core_comment comments pres fc original).
@@ -906,7 +1053,7 @@ Proof.
   destruct (p_set_kvpair_spec _ _ _ _ Hinv Hrc Hbbb) as [_ [Hinv' Hcases]].
   split; [exact Hinv'|]. exists v, original.
   split; [unfold own_lines; now rewrite Hn, Hnc0, Hrc, Hr, Hnl0, Hcl|].
-  split; [|split; [exact Hcm|]].
+  split; [|split; [exact Hcm|split; [|reflexivity]]].
   - destruct Hcases as [[l1 [f [l2 [Hg [Hpf [Hhn [Hab Hpf']]]]]]]|[Hg [Hab Hpf']]];
       rewrite Hg in Eget; injection Eget as <-; cbn [new_for].
     + exists l1, l2. now repeat split.
@@ -932,26 +1079,27 @@ Lemma set_raw_spec p k raw pres fc p' :
   exists v orig, own_lines v = true /\ new_for p k p' v orig
                  /\ new_comment pres fc orig (f_comment v)
                  /\ (body_ok (tl (splitlines py_islinebreak true (f_name v ++ [COLON] ++ raw))) = true
-                     -> f_rest v = COLON :: raw).
+                     -> f_rest v = COLON :: raw)
+                 /\ p_get p k true = LOk orig.
 Proof.
   intros Hinv H. unfold set_raw in H. bind_inv H. destruct x as [[comments pres'] fc'].
   unfold raw_args in Ha.
   destruct pres as [b|]; destruct fc as [|l|t]; try discriminate.
   - injection Ha as <- <- <-.
-    destruct (set_raw_core_spec _ _ _ [] _ _ _ Hinv eq_refl Hb) as [Hi [v [orig [Ho [Hn [Hc Hw]]]]]].
-    split; [exact Hi|]. exists v, orig. split; [exact Ho|]. split; [exact Hn|]. split; [|exact Hw].
+    destruct (set_raw_core_spec _ _ _ [] _ _ _ Hinv eq_refl Hb) as [Hi [v [orig [Ho [Hn [Hc [Hw Hg]]]]]]].
+    split; [exact Hi|]. exists v, orig. split; [exact Ho|]. split; [exact Hn|]. split; [|split; [exact Hw|exact Hg]].
     unfold core_comment in Hc. cbn [new_comment]. destruct b; [|now destruct orig].
     exact Hc.
   - injection Ha as <- <- <-.
-    destruct (set_raw_core_spec _ _ _ [] _ _ _ Hinv eq_refl Hb) as [Hi [v [orig [Ho [Hn [Hc Hw]]]]]].
+    destruct (set_raw_core_spec _ _ _ [] _ _ _ Hinv eq_refl Hb) as [Hi [v [orig [Ho [Hn [Hc [Hw Hg]]]]]]].
     split; [exact Hi|]. exists v, orig. now repeat split.
   - bind_inv Ha. injection Hab as <- <- <-.
     pose proof (map_result_format_comment _ _ Haa) as Hcs.
-    destruct (set_raw_core_spec _ _ _ _ _ _ _ Hinv Hcs Hb) as [Hi [v [orig [Ho [Hn [Hc Hw]]]]]].
-    split; [exact Hi|]. exists v, orig. split; [exact Ho|]. split; [exact Hn|]. split; [|exact Hw].
+    destruct (set_raw_core_spec _ _ _ _ _ _ _ Hinv Hcs Hb) as [Hi [v [orig [Ho [Hn [Hc [Hw Hg]]]]]]].
+    split; [exact Hi|]. exists v, orig. split; [exact Ho|]. split; [exact Hn|]. split; [|split; [exact Hw|exact Hg]].
     cbn [new_comment]. exists x. now split.
   - injection Ha as <- <- <-.
-    destruct (set_raw_core_spec _ _ _ [] _ _ _ Hinv eq_refl Hb) as [Hi [v [orig [Ho [Hn [Hc Hw]]]]]].
+    destruct (set_raw_core_spec _ _ _ [] _ _ _ Hinv eq_refl Hb) as [Hi [v [orig [Ho [Hn [Hc [Hw Hg]]]]]]].
     split; [exact Hi|]. exists v, orig. now repeat split.
 Qed.
 
@@ -962,7 +1110,8 @@ Lemma set_simple_spec p k sv pres fc p' :
                  /\ new_comment pres fc orig (f_comment v)
                  /\ (body_ok (tl (splitlines py_islinebreak true
                                    (f_name v ++ [COLON] ++ [SP] ++ py_strip sv ++ [LF]))) = true
-                     -> f_rest v = COLON :: [SP] ++ py_strip sv ++ [LF]).
+                     -> f_rest v = COLON :: [SP] ++ py_strip sv ++ [LF])
+                 /\ p_get p k true = LOk orig.
 Proof.
   unfold set_simple. destruct (mem_char LF sv); [discriminate|]. apply set_raw_spec.
 Qed.
@@ -975,6 +1124,15 @@ Definition setitem_raw (value : str) : str :=
       let value' := [SP] ++ py_strip first_line ++ [LF] ++ rest in
       if ends_nl value' then value' else value' ++ [LF]
   end.
+
+Lemma p_get_lookup_key p k ug :
+  para_inv p = true ->
+  p_get p (match k with KStr n => KIdx n 0 | KIdx _ _ => k end) ug = p_get p k ug.
+Proof.
+  intros Hinv. destruct k as [n|n i]; [|reflexivity]. destruct p as [fs|d]; cbn [p_get].
+  - reflexivity.
+  - destruct (para_inv_PD _ Hinv) as [Hd [Hnd _]]. now apply d_get_str_idx0.
+Qed.
 
 (** the dict interface keeps the comment of the field it replaces *)
 Lemma setitem_spec p k value p' :
@@ -996,32 +1154,11 @@ Proof.
     - cbv zeta in Hb. exact Hb.
     - unfold set_simple in Hb. destruct (mem_char LF (py_strip value)); [discriminate|].
       exact Hb. }
-  destruct (set_raw_spec _ _ _ _ _ _ Hinv Hs) as [Hi [v [orig [Ho [Hn [Hc Hw]]]]]].
+  destruct (set_raw_spec _ _ _ _ _ _ Hinv Hs) as [Hi [v [orig [Ho [Hn [Hc [Hw Hg]]]]]]].
   split; [exact Hi|]. exists v, orig. split; [exact Ho|]. split; [exact Hn|]. split; [|exact Hw].
   (* the field looked up with index 0 is the field the set replaces *)
   assert (Horig : orig0 = orig).
-  { destruct p as [fs|d]; [|discriminate].
-    cbn [p_get] in Ha. unfold nd_get in Ha.
-    assert (Hu : unpack_key (match k with KStr n => KIdx n 0 | KIdx _ _ => k end) true
-                 = unpack_key k true) by (destruct k; reflexivity).
-    rewrite Hu in Ha. clear Hu.
-    destruct (unpack_key k true) as [nk|e] eqn:Ek.
-    2:{ (* an indexed key other than 0: the set itself fails *)
-        exfalso. unfold set_raw in Hs. destruct fc; cbn [raw_args bind] in Hs;
-          unfold set_raw_core in Hs; cbn [p_get] in Hs; unfold nd_get in Hs;
-          rewrite Ek in Hs; discriminate. }
-    apply unpack_key_true in Ek. subst nk. cbn [bind fst lres_result] in Ha.
-    cbn [para_fields] in Hn.
-    destruct (List.find (has_name (key_name k)) fs) as [g|] eqn:Ef; injection Ha as <-.
-    - destruct orig as [f|]; cbn [new_for para_fields] in Hn.
-      + destruct Hn as [l1 [l2 [Hfs [Hf [Hab _]]]]]. rewrite Hfs, find_split in Ef by assumption.
-        congruence.
-      + destruct Hn as [Hab _]. apply find_some_split in Ef.
-        destruct Ef as [l1 [l2 [-> [_ Hg]]]]. rewrite absent_app in Hab. cbn [absent forallb] in Hab.
-        rewrite Hg in Hab. cbn in Hab. now rewrite andb_false_r in Hab.
-    - destruct orig as [f|]; [|reflexivity]. cbn [new_for para_fields] in Hn.
-      destruct Hn as [l1 [l2 [Hfs [Hf [Hab _]]]]]. rewrite Hfs, find_split in Ef by assumption.
-      discriminate. }
+  { rewrite p_get_lookup_key in Ha by exact Hinv. rewrite Hg in Ha. now injection Ha. }
   subst orig0. subst fc. destruct orig as [f|]; cbn [new_comment] in Hc.
   - destruct (is_nil (f_comment f)) eqn:En; cbn [new_comment] in Hc; [exact Hc|exact Hc].
   - exact Hc.
@@ -1132,9 +1269,6 @@ Qed.
 
 (** ** byte-level statements *)
 
-Definition colon_first (s : str) : bool :=
-  match s with c :: _ => (c =? COLON)%N | [] => false end.
-
 (** replacing an existing field through any set-like operation *)
 Theorem set_existing_bytes d o d' a p b l1 f l2 :
   doc_inv d = true ->
@@ -1145,7 +1279,7 @@ Theorem set_existing_bytes d o d' a p b l1 f l2 :
   exists v,
     dump d  = (dump a ++ ftext l1) ++ field_text f ++ (ftext l2 ++ dump b) /\
     dump d' = (dump a ++ ftext l1) ++ field_text v ++ (ftext l2 ++ dump b) /\
-    d' = a ++ Para (PN (l1 ++ v :: l2)) :: b /\
+    (exists p', d' = a ++ Para p' :: b /\ para_fields p' = l1 ++ v :: l2) /\
     f_name v = f_name f /\ own_lines v = true /\ op_comment o (Some f) (f_comment v).
 Proof.
   intros Hinv Hset Hs Hpf Hf H.
@@ -1163,10 +1297,7 @@ Proof.
     destruct (denoted_unique _ _ _ _ _ _ _ Hpf2 Hf Hl1 Hg Hm1) as [<- [<- <-]].
     exists v. rewrite (split_doc_eq _ _ _ _ _ Hs).
     rewrite !dump_split, Hpf, Hpf', !ftext_app, !ftext_cons, <- !app_assoc.
-    repeat split; try assumption.
-    destruct p' as [fs'|dd]; [cbn [para_fields] in Hpf'; now subst fs'|].
-    exfalso. pose proof (run_op_local _ _ _ Hinv H) as [Hi' _].
-    rewrite doc_inv_split in Hi'. cbn [para_inv] in Hi'. now rewrite andb_false_r in Hi'.
+    repeat split; try assumption. now exists p'.
   - destruct Hnew as [Hab _]. rewrite Hpf, absent_app in Hab. cbn [absent forallb] in Hab.
     rewrite Hf in Hab. cbn in Hab. now rewrite andb_false_r in Hab.
 Qed.
@@ -1182,7 +1313,8 @@ Theorem set_new_bytes d o d' a p b :
     dump d  = (dump a ++ ftext (para_fields p)) ++ dump b /\
     dump d' = (dump a ++ ftext (para_fields p)) ++ nl_suffix (ftext (para_fields p))
               ++ field_text v ++ dump b /\
-    d' = a ++ Para (PN (map_last add_nl (para_fields p) ++ [v])) :: b /\
+    (exists p', d' = a ++ Para p' :: b
+                /\ para_fields p' = map_last add_nl (para_fields p) ++ [v]) /\
     f_name v = key_name (op_key o) /\ own_lines v = true /\ op_comment o None (f_comment v).
 Proof.
   intros Hinv Hset Hs Hab H.
@@ -1200,9 +1332,7 @@ Proof.
     pose proof (para_inv_fields _ Hp) as Hfi. unfold fields_inv in Hfi.
     apply andb_true_iff in Hfi. destruct Hfi as [_ Hrc].
     rewrite !dump_split, Hpf', ftext_app, ftext_map_last_add_nl, ftext_one, <- !app_assoc by exact Hrc.
-    repeat split; try assumption.
-    destruct p' as [fs'|dd]; [cbn [para_fields] in Hpf'; now subst fs'|].
-    exfalso. rewrite doc_inv_split in Hi'. cbn [para_inv] in Hi'. now rewrite andb_false_r in Hi'.
+    repeat split; try assumption. now exists p'.
 Qed.
 
 (** deleting a field *)
@@ -1213,7 +1343,7 @@ Theorem delete_bytes d j k d' a p b l1 f l2 :
   run_op d (ODel j k) = Ok d' ->
   dump d  = (dump a ++ ftext l1) ++ field_text f ++ (ftext l2 ++ dump b) /\
   dump d' = (dump a ++ ftext l1) ++ (ftext l2 ++ dump b) /\
-  d' = a ++ Para (PN (l1 ++ l2)) :: b.
+  exists p', d' = a ++ Para p' :: b /\ para_fields p' = l1 ++ l2.
 Proof.
   intros Hinv Hs Hpf Hf H.
   destruct (run_op_local _ _ _ Hinv H) as [Hi' [a' [p0 [b' [p' [Hs' [-> [Hp He]]]]]]]].
@@ -1225,9 +1355,7 @@ Proof.
   destruct (denoted_unique _ _ _ _ _ _ _ Hpf2 Hf Hl1 Hg Hm1) as [<- [<- <-]].
   rewrite (split_doc_eq _ _ _ _ _ Hs).
   rewrite !dump_split, Hpf, Hpf', !ftext_app, !ftext_cons, <- !app_assoc.
-  repeat split.
-  destruct p' as [fs'|dd]; [cbn [para_fields] in Hpf'; now subst fs'|].
-  exfalso. rewrite doc_inv_split in Hi'. cbn [para_inv] in Hi'. now rewrite andb_false_r in Hi'.
+  repeat split. now exists p'.
 Qed.
 
 (** * Part 6 : line structure (every item that is followed by another one ends with a newline) *)
@@ -1467,9 +1595,6 @@ Qed.
 
 (** ** reading the edited object *)
 
-Definition plain_key (k : key) : bool :=
-  match k with KStr _ => true | KIdx _ i => (i =? 0)%Z end.
-
 (** the new field is read under every spelling of its name *)
 Lemma getitem_new p k p' v orig k' :
   para_inv p' = true -> new_for p k p' v orig ->
@@ -1659,20 +1784,6 @@ Qed.
 
 (** ** the other fields read as before *)
 
-Definition read_name (fs : list field) (m : str) : option str :=
-  option_map value_str (List.find (has_name m) fs).
-
-Lemma getitem_PN fs k :
-  plain_key k = true ->
-  getitem (PN fs) k = match read_name fs (key_name k) with Some s => Ok s | None => Err KeyError end.
-Proof.
-  intros Hk. unfold getitem, read_name. cbn [p_get]. unfold nd_get.
-  assert (Hu : unpack_key (match k with KStr n => KIdx n 0 | KIdx _ _ => k end) true
-               = Ok (key_name k, None)).
-  { destruct k as [n|n i]; cbn [unpack_key key_name]; [reflexivity|]. cbn in Hk. now rewrite Hk. }
-  rewrite Hu. cbn [bind fst]. now destruct (List.find (has_name (key_name k)) fs).
-Qed.
-
 Lemma find_app_none {A} (q : A -> bool) l1 l2 :
   List.find q (l1 ++ l2) = match List.find q l1 with Some x => Some x | None => List.find q l2 end.
 Proof.
@@ -1729,21 +1840,1110 @@ Theorem others_unchanged o p p' k' :
   getitem p' k' = getitem p k'.
 Proof.
   intros Hp Hp' He Hk Hm.
-  destruct p as [fs|]; [|discriminate]. destruct p' as [fs'|]; [|discriminate].
-  rewrite !getitem_PN by exact Hk. cbn [para_inv] in Hp. unfold fields_inv in Hp.
+  rewrite !getitem_fields by assumption.
+  apply para_inv_fields in Hp. unfold fields_inv in Hp.
   apply andb_true_iff in Hp. destruct Hp as [_ Hrc].
-  assert (Hset : (exists v orig, new_for (PN fs) (op_key o) (PN fs') v orig) ->
+  set (fs := para_fields p) in *. set (fs' := para_fields p') in *.
+  assert (Hset : (exists v orig, new_for p (op_key o) p' v orig) ->
                  read_name fs' (key_name k') = read_name fs (key_name k')).
-  { intros [v [orig Hnew]]. destruct orig as [f|]; cbn [new_for para_fields] in Hnew.
-    - destruct Hnew as [l1 [l2 [-> [Hf [_ [-> Hn]]]]]].
+  { intros [v [orig Hnew]]. subst fs fs'. destruct orig as [f|]; cbn [new_for] in Hnew.
+    - destruct Hnew as [l1 [l2 [E [Hf [_ [E' Hn]]]]]]. rewrite E, E'.
       pose proof (other_name _ _ _ Hf Hm) as Hf'.
       apply read_name_replace; [exact Hf'|]. unfold has_name in *. now rewrite Hn.
-    - destruct Hnew as [_ [-> Hn]]. apply read_name_append; [exact Hrc|].
+    - destruct Hnew as [_ [E' Hn]]. rewrite E'. apply read_name_append; [exact Hrc|].
       unfold has_name. rewrite Hn, name_eqb_sym. exact Hm. }
   destruct o as [j k v|j k|j k v pres fc|j k v pres fc]; cbn [para_edit op_key] in *.
   - rewrite Hset; [reflexivity|]. destruct He as [w [orig [_ [H _]]]]. now exists w, orig.
-  - cbn [para_fields] in He. destruct He as [l1 [f [l2 [-> [Hf [_ ->]]]]]].
+  - destruct He as [l1 [f [l2 [E [Hf [_ E']]]]]]. subst fs fs'. rewrite E, E'.
     now rewrite (read_name_remove _ l1 f l2 (other_name _ _ _ Hf Hm)).
   - rewrite Hset; [reflexivity|]. destruct He as [w [orig [_ [H _]]]]. now exists w, orig.
   - rewrite Hset; [reflexivity|]. destruct He as [w [orig [_ [H _]]]]. now exists w, orig.
+Qed.
+
+(** * Part 9 : the value the dict interface stores reads back as the Spec's [expected_read] *)
+
+Lemma lines_acc_prefix a b : forall cur,
+  forallb (fun c => negb (c =? LF)%N) a = true ->
+  lines_acc (a ++ LF :: b) cur = (rev cur ++ a ++ [LF]) :: lines_acc b [].
+Proof.
+  induction a as [|x a IH]; intros cur H.
+  - reflexivity.
+  - cbn [forallb] in H. apply andb_true_iff in H. destruct H as [Hx H].
+    apply negb_true_iff in Hx. cbn [app lines_acc]. rewrite Hx, IH by exact H.
+    cbn [rev]. now rewrite <- !app_assoc.
+Qed.
+
+Lemma split_on_first_some c s a b :
+  split_on_first c s = (a, Some b) ->
+  s = a ++ c :: b /\ forallb (fun x => negb (x =? c)%N) a = true.
+Proof.
+  revert a b. induction s as [|x s IH]; intros a b H; [discriminate|].
+  cbn [split_on_first] in H. destruct (N.eqb_spec x c) as [->|Hne].
+  - injection H as <- <-. now split.
+  - destruct (split_on_first c s) as [a' b'] eqn:E. injection H as <- ->.
+    destruct (IH _ _ eq_refl) as [-> H2]. split; [reflexivity|].
+    cbn [forallb]. rewrite H2, andb_true_r. now apply negb_true_iff, N.eqb_neq.
+Qed.
+
+Lemma split_on_first_none c s a :
+  split_on_first c s = (a, None) -> a = s /\ forallb (fun x => negb (x =? c)%N) s = true.
+Proof.
+  revert a. induction s as [|x s IH]; intros a H.
+  - injection H as <-. now split.
+  - cbn [split_on_first] in H. destruct (N.eqb_spec x c) as [->|Hne]; [discriminate|].
+    destruct (split_on_first c s) as [a' b'] eqn:E. injection H as <- ->.
+    destruct (IH _ eq_refl) as [-> H2]. split; [reflexivity|].
+    cbn [forallb]. rewrite H2, andb_true_r. now apply negb_true_iff, N.eqb_neq.
+Qed.
+
+(** ** stripping *)
+
+Lemma forallb_dropwhile {A} (q r : A -> bool) s : forallb q s = true -> forallb q (dropwhile r s) = true.
+Proof.
+  induction s as [|c s IH]; [reflexivity|]. cbn [forallb dropwhile]. intros H.
+  apply andb_true_iff in H. destruct H as [Hc H]. destruct (r c); [now apply IH|].
+  cbn [forallb]. now rewrite Hc, H.
+Qed.
+
+Lemma forallb_rev {A} (q : A -> bool) s : forallb q (rev s) = forallb q s.
+Proof.
+  induction s as [|c s IH]; [reflexivity|]. cbn [rev forallb]. rewrite forallb_app, IH.
+  cbn [forallb]. rewrite andb_true_r. apply andb_comm.
+Qed.
+
+Lemma forallb_py_strip q s : forallb q s = true -> forallb q (py_strip s) = true.
+Proof.
+  intros H. unfold py_strip, strip_by, rstrip_by, lstrip_by, rdropwhile.
+  rewrite forallb_rev. apply forallb_dropwhile. rewrite forallb_rev. now apply forallb_dropwhile.
+Qed.
+
+Lemma py_strip_idem s : py_strip (py_strip s) = py_strip s.
+Proof. apply strip_by_idem. Qed.
+
+Lemma py_strip_sp s : py_strip (SP :: s) = py_strip s.
+Proof. reflexivity. Qed.
+
+Lemma py_strip_first_line sf : py_strip (SP :: py_strip sf ++ [LF]) = py_strip sf.
+Proof.
+  change (SP :: py_strip sf ++ [LF]) with ((SP :: py_strip sf) ++ [LF]).
+  now rewrite py_strip_app_lf, py_strip_sp, py_strip_idem.
+Qed.
+
+(** ** lines of a closed text; chomp and join *)
+
+Lemma lines_acc_closed s : forall cur,
+  (if is_nil s then is_nil cur else ends_nl s) = true ->
+  forallb ends_nl (lines_acc s cur) = true.
+Proof.
+  induction s as [|x s IH]; intros cur H.
+  - cbn in H. apply is_nil_true in H. now subst cur.
+  - cbn [is_nil] in H. cbn [lines_acc]. destruct (N.eqb_spec x LF) as [->|Hne].
+    + cbn [forallb]. rewrite ends_nl_app_lf. cbn [andb]. apply IH.
+      destruct s as [|y s]; [reflexivity|]. cbn [is_nil]. now rewrite ends_nl_cons in H by discriminate.
+    + apply IH. destruct s as [|y s].
+      * unfold ends_nl in H. cbn in H. apply N.eqb_eq in H. congruence.
+      * cbn [is_nil]. now rewrite ends_nl_cons in H by discriminate.
+Qed.
+
+Lemma chomp_app_lf l : chomp (l ++ [LF]) = l.
+Proof.
+  unfold chomp. change s_ends_nl with ends_nl. rewrite ends_nl_app_lf. apply removelast_last.
+Qed.
+
+Lemma chomp_no_nl l : ends_nl l = false -> chomp l = l.
+Proof. unfold chomp. change s_ends_nl with ends_nl. now intros ->. Qed.
+
+Lemma starts_hash_chomp l : starts_hash (chomp l) = starts_hash l.
+Proof.
+  unfold chomp. change s_ends_nl with ends_nl. destruct (ends_nl l) eqn:E; [|reflexivity].
+  apply ends_nl_split in E. destruct E as [l0 ->]. rewrite removelast_last.
+  destruct l0 as [|c l0]; reflexivity.
+Qed.
+
+Lemma filter_map_comm {A B} (g : A -> B) (q : B -> bool) l :
+  filter q (map g l) = map g (filter (fun a => q (g a)) l).
+Proof.
+  induction l as [|a l IH]; [reflexivity|]. cbn [map filter]. destruct (q (g a)); cbn [map]; now rewrite IH.
+Qed.
+
+Lemma filter_ext {A} (q r : A -> bool) l : (forall a, q a = r a) -> filter q l = filter r l.
+Proof.
+  intros H. induction l as [|a l IH]; [reflexivity|]. cbn [filter]. now rewrite H, IH.
+Qed.
+
+Lemma concat_chomp_join F :
+  F <> [] -> forallb ends_nl F = true -> concat F = join [LF] (map chomp F) ++ [LF].
+Proof.
+  induction F as [|l F IH]; [congruence|]. intros _ H. cbn [forallb] in H.
+  apply andb_true_iff in H. destruct H as [Hl H]. apply ends_nl_split in Hl. destruct Hl as [l0 ->].
+  destruct F as [|l2 F].
+  - cbn [concat map join intersperse_concat]. now rewrite app_nil_r, chomp_app_lf.
+  - cbn [concat map]. rewrite join_cons by discriminate. rewrite chomp_app_lf.
+    change (concat (l2 :: F)) with (concat (l2 :: F)).
+    assert (E : concat (l2 :: F) = join [LF] (map chomp (l2 :: F)) ++ [LF]) by (apply IH; [discriminate|exact H]).
+    cbn [concat map] in E. rewrite E. now rewrite <- !app_assoc.
+Qed.
+
+(** ** reading the stored text *)
+
+Definition no_other_break (s : str) : bool :=
+  forallb (fun c => negb (py_islinebreak c) || (c =? LF)%N) s.
+
+(** the text [__setitem__] builds for a multi-line value: first line, then the lines of the rest *)
+Definition closed_rest (rest : str) : str := if closed rest then rest else rest ++ [LF].
+
+Lemma setitem_raw_multi V first rest :
+  split_on_first LF V = (first, Some rest) ->
+  setitem_raw V = (SP :: py_strip first) ++ LF :: closed_rest rest.
+Proof.
+  intros E. unfold setitem_raw. rewrite E. cbv zeta. set (sf := py_strip first).
+  assert (Ha : [SP] ++ sf ++ [LF] ++ rest = ((SP :: sf) ++ [LF]) ++ rest)
+    by (cbn [app]; now rewrite <- app_assoc).
+  rewrite Ha. unfold closed_rest, closed. destruct rest as [|c rest].
+  - rewrite app_nil_r, ends_nl_app_lf. reflexivity.
+  - cbn [is_nil orb]. rewrite ends_nl_app by discriminate. destruct (ends_nl (c :: rest)).
+    + now rewrite <- app_assoc.
+    + now rewrite <- !app_assoc.
+Qed.
+
+Lemma lines_closed_rest rest :
+  let Ls := lines_acc rest [] in
+  let Ls' := lines_acc (closed_rest rest) [] in
+  forallb ends_nl Ls' = true
+  /\ map chomp (filter (fun l => negb (starts_hash l)) Ls')
+     = map chomp (filter (fun l => negb (starts_hash l)) Ls)
+  /\ (Ls' = Ls \/ exists L0 last, Ls = L0 ++ [last] /\ Ls' = L0 ++ [last ++ [LF]] /\ last <> []).
+Proof.
+  cbv zeta. unfold closed_rest. destruct (closed rest) eqn:Ec.
+  - split; [|split; [reflexivity|now left]].
+    apply lines_acc_closed. unfold closed in Ec. destruct rest; [reflexivity|exact Ec].
+  - assert (Hne : rest <> []) by (intros ->; discriminate).
+    assert (Hnl : ends_nl rest = false) by (rewrite closed_nonempty in Ec; assumption).
+    split.
+    { apply lines_acc_closed. rewrite ends_nl_app_lf.
+      destruct (rest ++ [LF]) eqn:E; [destruct rest; discriminate|]. reflexivity. }
+    rewrite lines_acc_app_lf by exact Hnl.
+    pose proof (lines_acc_nonempty rest [] Hne) as Hl.
+    pose proof (lines_acc_nonempty_lines rest []) as Hnel.
+    pose proof (splitlines_keepends_concat is_lf rest) as Hcat.
+    fold (lf_lines rest) in Hcat. rewrite lf_lines_acc in Hcat.
+    destruct (lines_acc rest []) as [|h t] eqn:El; [congruence|].
+    destruct (@exists_last _ (h :: t)) as [L0 [last Hlast]]; [discriminate|]. rewrite Hlast in *.
+    rewrite map_last_snoc. unfold app_lf.
+    rewrite forallb_app in Hnel. apply andb_true_iff in Hnel. destruct Hnel as [_ Hnel].
+    cbn [forallb] in Hnel. rewrite andb_true_r in Hnel.
+    assert (Hlne : last <> []) by (destruct last; [discriminate|discriminate]).
+    assert (Hend : ends_nl last = false).
+    { rewrite concat_app in Hcat. cbn [concat] in Hcat. rewrite app_nil_r in Hcat.
+      rewrite <- Hcat in Hnl. now rewrite ends_nl_app in Hnl by exact Hlne. }
+    split; [|right; now exists L0, last].
+    rewrite !filter_app, !map_app. f_equal. cbn [filter]. rewrite starts_hash_app by exact Hlne.
+    destruct (negb (starts_hash last)); [|reflexivity]. cbn [map].
+    now rewrite chomp_app_lf, chomp_no_nl.
+Qed.
+
+Lemma only_lf_lines s : splitlines only_lf true s = lines_acc s [].
+Proof. change (splitlines only_lf true s) with (lf_lines s). apply lf_lines_acc. Qed.
+
+Theorem value_str_setitem_raw c n V :
+  valid_value V = true ->
+  value_str (mkF c n (COLON :: setitem_raw V)) = expected_read V.
+Proof.
+  intros Hv. unfold valid_value in Hv. apply andb_true_iff in Hv. destruct Hv as [_ Hv].
+  unfold expected_read. destruct (split_on_first 10%N V) as [first [rest|]] eqn:E.
+  - (* multi-line *)
+    change 10%N with LF in E. rewrite (setitem_raw_multi _ _ _ E).
+    destruct (split_on_first_some _ _ _ _ E) as [_ Hfirst].
+    unfold value_str, value_lines. cbn [f_rest tl].
+    rewrite lf_lines_acc, lines_acc_prefix.
+    2:{ cbn [forallb]. change (negb (SP =? LF)%N) with true. cbn [andb].
+        now apply forallb_py_strip. }
+    cbn [rev app]. rewrite only_lf_lines.
+    destruct (lines_closed_rest rest) as [Hends [Hmap _]]. cbv zeta in Hends, Hmap.
+    set (Ls := lines_acc rest []) in *. set (Ls' := lines_acc (closed_rest rest) []) in *.
+    rewrite filter_map_comm.
+    rewrite (filter_ext (fun a => negb (is_comment_line (chomp a))) (fun l => negb (starts_hash l)))
+      by (intros a; change is_comment_line with starts_hash; now rewrite starts_hash_chomp).
+    rewrite <- Hmap.
+    set (F := filter (fun l => negb (starts_hash l)) Ls') in *.
+    assert (HF : forallb ends_nl F = true).
+    { subst F. rewrite forallb_forall in *. intros x Hx. apply filter_In in Hx. now apply Hends. }
+    clearbody F. destruct F as [|m F'].
+    + cbn [map]. change (join [10%N] [trim first]) with (trim first).
+      change trim with py_strip. apply py_strip_first_line.
+    + change (py_strip ((SP :: py_strip first) ++ [LF])) with (py_strip (SP :: py_strip first ++ [LF])).
+      rewrite py_strip_first_line. rewrite join_cons by discriminate.
+      rewrite concat_chomp_join by (try discriminate; exact HF).
+      change trim with py_strip. change [10%N] with [LF].
+      set (J := join [LF] (map chomp (m :: F'))).
+      change (py_strip first ++ LF :: J ++ [LF]) with (py_strip first ++ ([LF] ++ J) ++ [LF]).
+      rewrite app_assoc. unfold drop_final_nl. rewrite ends_nl_app_lf. now rewrite removelast_last.
+  - (* single line *)
+    change 10%N with LF in E. unfold setitem_raw. rewrite E.
+    destruct (split_on_first_none _ _ _ E) as [_ HV].
+    unfold value_str, value_lines. cbn [f_rest tl].
+    change ([SP] ++ py_strip (py_strip V) ++ [LF]) with ((SP :: py_strip (py_strip V)) ++ LF :: []).
+    rewrite lf_lines_acc, lines_acc_prefix.
+    2:{ cbn [forallb]. change (negb (SP =? LF)%N) with true. cbn [andb].
+        now apply forallb_py_strip, forallb_py_strip. }
+    cbn [rev app lines_acc is_nil filter].
+    change (py_strip (SP :: py_strip (py_strip V) ++ [LF]) = trim V).
+    rewrite py_strip_first_line. change trim with py_strip. apply py_strip_idem.
+Qed.
+
+(** ** for a valid value the stored field is the whole text *)
+
+Lemma name_char_no_break c : name_char c = true -> py_islinebreak c = false.
+Proof.
+  intros H. unfold py_islinebreak, py_linebreaks. cbn [existsb].
+  repeat match goal with
+         | |- context [N.eqb c ?k] => destruct (N.eqb_spec c k) as [->|_]; [discriminate H|]
+         end.
+  reflexivity.
+Qed.
+
+Lemma no_other_break_app a b : no_other_break (a ++ b) = no_other_break a && no_other_break b.
+Proof. apply forallb_app. Qed.
+
+Lemma no_break_no_lf s :
+  forallb (fun c => negb (py_islinebreak c)) s = true ->
+  no_other_break s = true /\ forallb (fun c => negb (c =? LF)%N) s = true.
+Proof.
+  intros H. unfold no_other_break. rewrite forallb_forall in H. split; apply forallb_forall; intros c Hc.
+  - now rewrite (H c Hc).
+  - specialize (H c Hc). destruct (N.eqb_spec c LF) as [->|]; [discriminate H|reflexivity].
+Qed.
+
+Lemma no_lf_no_break s :
+  no_other_break s = true -> forallb (fun c => negb (c =? LF)%N) s = true ->
+  forallb (fun c => negb (py_islinebreak c)) s = true.
+Proof.
+  unfold no_other_break. rewrite !forallb_forall. intros H1 H2 c Hc.
+  specialize (H1 c Hc). specialize (H2 c Hc). apply negb_true_iff in H2. rewrite H2 in H1.
+  now rewrite orb_false_r in H1.
+Qed.
+
+Lemma classify_comment_line l : is_comment_line l = true -> classify true l = LComment.
+Proof.
+  destruct l as [|c l]; [discriminate|]. cbn [is_comment_line]. intros H.
+  apply N.eqb_eq in H. subst c. reflexivity.
+Qed.
+
+Lemma classify_cont_line l : is_cont_line l = true -> classify true l = LCont.
+Proof.
+  destruct l as [|c l]; [discriminate|]. cbn [is_cont_line]. intros H.
+  apply andb_true_iff in H. destruct H as [Hc Hs]. apply negb_true_iff in Hs.
+  unfold classify, Doc.is_ws_line. rewrite Hs. cbn [is_nil negb andb].
+  change 32%N with SP in Hc. change 9%N with TAB in Hc. rewrite Hc.
+  apply orb_true_iff in Hc. destruct Hc as [Hc|Hc]; apply N.eqb_eq in Hc; subst c; reflexivity.
+Qed.
+
+Lemma is_cont_line_app_lf l : l <> [] -> is_cont_line (l ++ [LF]) = is_cont_line l.
+Proof.
+  destruct l as [|c l]; [congruence|]. intros _. cbn [app is_cont_line]. f_equal. f_equal.
+  change (c :: l ++ [LF]) with ((c :: l) ++ [LF]). rewrite forallb_app. cbn [forallb].
+  change (py_isspace LF) with true. now rewrite !andb_true_r.
+Qed.
+
+Lemma last_opt_in {A} (l : list A) x : last_opt l = Some x -> exists l0, l = l0 ++ [x].
+Proof.
+  intros H. destruct l as [|a l]; [discriminate|].
+  destruct (@exists_last _ (a :: l)) as [l0 [y Hy]]; [discriminate|]. rewrite Hy in *.
+  rewrite last_opt_app in H. injection H as ->. now exists l0.
+Qed.
+
+Lemma last_opt_none {A} (l : list A) : last_opt l = None -> l = [].
+Proof.
+  destruct l as [|a l]; [reflexivity|]. intros H.
+  destruct (@exists_last _ (a :: l)) as [l0 [y Hy]]; [discriminate|]. rewrite Hy, last_opt_app in H.
+  discriminate.
+Qed.
+
+Lemma body_ok_lines rest :
+  forallb (fun l => is_comment_line l || is_cont_line l) (lines_acc rest []) = true ->
+  match last_opt (lines_acc rest []) with Some l => negb (is_comment_line l) | None => true end = true ->
+  body_ok (lines_acc (closed_rest rest) []) = true.
+Proof.
+  intros Hall Hlast. destruct (lines_closed_rest rest) as [_ [_ Hshape]]. cbv zeta in Hshape.
+  assert (Hbc : forall l, is_comment_line l || is_cont_line l = true -> body_class l = true).
+  { intros l H. unfold body_class. apply orb_true_iff in H. destruct H as [H|H].
+    - now rewrite (classify_comment_line _ H).
+    - now rewrite (classify_cont_line _ H). }
+  assert (Hcc : forall l, is_comment_line l || is_cont_line l = true -> is_comment_line l = false ->
+                          cont_class l = true).
+  { intros l H Hn. rewrite Hn in H. cbn [orb] in H. unfold cont_class.
+    now rewrite (classify_cont_line _ H). }
+  unfold body_ok. destruct (lines_acc rest []) as [|h t] eqn:El.
+  - destruct Hshape as [->|[L0 [last [E _]]]]; [reflexivity|destruct L0; discriminate].
+  - destruct (last_opt (h :: t)) as [lst|] eqn:Elast; [|now apply last_opt_none in Elast].
+    apply negb_true_iff in Hlast. destruct (last_opt_in _ _ Elast) as [M0 HM].
+    rewrite HM in Hall. rewrite forallb_app in Hall. apply andb_true_iff in Hall.
+    destruct Hall as [HM0 Hl]. cbn [forallb] in Hl. rewrite andb_true_r in Hl.
+    destruct Hshape as [->|[L0 [last [E [-> Hne]]]]].
+    + rewrite HM. rewrite forallb_app, last_opt_app. cbn [forallb].
+      destruct M0; cbn [app is_nil orb]; rewrite ?(Hbc _ Hl), ?(Hcc _ Hl Hlast), ?andb_true_r.
+      * reflexivity.
+      * rewrite forallb_forall in HM0. cbn [forallb]. rewrite Hbc by (apply HM0; now left).
+        cbn [andb]. apply forallb_forall. intros x Hx. apply Hbc, HM0. now right.
+    + rewrite HM in E. apply app_inj_tail in E. destruct E as [<- <-].
+      assert (Hl' : is_comment_line (lst ++ [LF]) || is_cont_line (lst ++ [LF]) = true).
+      { rewrite is_cont_line_app_lf by exact Hne. change is_comment_line with starts_hash in *.
+        now rewrite starts_hash_app. }
+      assert (Hlast' : is_comment_line (lst ++ [LF]) = false).
+      { change is_comment_line with starts_hash in *. now rewrite starts_hash_app. }
+      rewrite forallb_app, last_opt_app. cbn [forallb].
+      rewrite (Hbc _ Hl'), (Hcc _ Hl' Hlast'), !andb_true_r.
+      assert (HM0' : forallb body_class M0 = true).
+      { apply forallb_forall. intros x Hx. apply Hbc. rewrite forallb_forall in HM0. now apply HM0. }
+      rewrite HM0'. destruct M0; reflexivity.
+Qed.
+
+Lemma setitem_body_ok n V :
+  forallb name_char n = true -> valid_value V = true ->
+  body_ok (tl (splitlines py_islinebreak true (n ++ [COLON] ++ setitem_raw V))) = true.
+Proof.
+  intros Hn Hv. unfold valid_value in Hv. apply andb_true_iff in Hv. destruct Hv as [Hch Hv].
+  change (fun c : N => negb (py_islinebreak c) || (c =? 10)%N) with
+         (fun c : N => negb (py_islinebreak c) || (c =? LF)%N) in Hch.
+  fold (no_other_break V) in Hch.
+  assert (Hnb : forallb (fun c => negb (py_islinebreak c)) n = true).
+  { rewrite forallb_forall in *. intros c Hc. now rewrite (name_char_no_break c (Hn c Hc)). }
+  destruct (no_break_no_lf _ Hnb) as [Hn1 Hn2].
+  destruct (split_on_first 10%N V) as [first [rest|]] eqn:E; change 10%N with LF in E.
+  - rewrite (setitem_raw_multi _ _ _ E).
+    destruct (split_on_first_some _ _ _ _ E) as [HV Hfirst]. rewrite HV in Hch.
+    rewrite no_other_break_app in Hch. apply andb_true_iff in Hch. destruct Hch as [Hf Hr].
+    change (LF :: rest) with ([LF] ++ rest) in Hr. rewrite no_other_break_app in Hr.
+    apply andb_true_iff in Hr. destruct Hr as [_ Hr].
+    pose proof (no_lf_no_break _ Hf Hfirst) as Hfb.
+    pose proof (forallb_py_strip _ _ Hfb) as Hsb. destruct (no_break_no_lf _ Hsb) as [Hs1 Hs2].
+    set (sf := py_strip first) in *.
+    assert (Hpre : n ++ [COLON] ++ (SP :: sf) ++ LF :: closed_rest rest
+                   = (n ++ COLON :: SP :: sf) ++ LF :: closed_rest rest).
+    { now rewrite <- !app_assoc. }
+    rewrite Hpre. unfold splitlines. rewrite splitlines_aux_lines_acc.
+    + rewrite lines_acc_prefix.
+      * cbn [tl]. rewrite only_lf_lines in Hv. apply andb_true_iff in Hv. destruct Hv as [H1 H2].
+        now apply body_ok_lines.
+      * rewrite forallb_app. cbn [forallb]. now rewrite Hn2, Hs2.
+    + reflexivity.
+    + fold (no_other_break ((n ++ COLON :: SP :: sf) ++ LF :: closed_rest rest)).
+      rewrite no_other_break_app. change (COLON :: SP :: sf) with ([COLON; SP] ++ sf).
+      rewrite !no_other_break_app, Hn1, Hs1. cbn [andb].
+      change (no_other_break [COLON; SP]) with true. cbn [andb].
+      change (LF :: closed_rest rest) with ([LF] ++ closed_rest rest). rewrite no_other_break_app.
+      change (no_other_break [LF]) with true. cbn [andb]. unfold closed_rest.
+      destruct (closed rest); [exact Hr|]. rewrite no_other_break_app, Hr. reflexivity.
+  - unfold setitem_raw. rewrite E.
+    destruct (split_on_first_none _ _ _ E) as [_ HV].
+    pose proof (no_lf_no_break _ Hch HV) as Hvb.
+    pose proof (forallb_py_strip _ _ (forallb_py_strip _ _ Hvb)) as Hsb.
+    destruct (no_break_no_lf _ Hsb) as [Hs1 Hs2]. set (sf := py_strip (py_strip V)) in *.
+    assert (Hpre : n ++ [COLON] ++ [SP] ++ sf ++ [LF] = (n ++ COLON :: SP :: sf) ++ LF :: []).
+    { now rewrite <- !app_assoc. }
+    rewrite Hpre. unfold splitlines. rewrite splitlines_aux_lines_acc.
+    + rewrite lines_acc_prefix; [reflexivity|]. rewrite forallb_app. cbn [forallb]. now rewrite Hn2, Hs2.
+    + reflexivity.
+    + fold (no_other_break ((n ++ COLON :: SP :: sf) ++ [LF])).
+      rewrite no_other_break_app. change (COLON :: SP :: sf) with ([COLON; SP] ++ sf).
+      rewrite !no_other_break_app, Hn1, Hs1. reflexivity.
+Qed.
+
+(** the dict interface, complete: where the new field goes, its comment, and — for every value
+    deb822 can carry — the value it reads back as *)
+Theorem setitem_readback p k V p' :
+  para_inv p = true -> setitem p k V = Ok p' ->
+  para_inv p' = true /\
+  exists v orig, own_lines v = true /\ new_for p k p' v orig
+                 /\ f_comment v = match orig with Some f => f_comment f | None => [] end
+                 /\ (valid_value V = true ->
+                     f_rest v = COLON :: setitem_raw V /\ value_str v = expected_read V).
+Proof.
+  intros Hinv H. destruct (setitem_spec _ _ _ _ Hinv H) as [Hi [v [orig [Ho [Hn [Hc Hw]]]]]].
+  split; [exact Hi|]. exists v, orig. repeat split; try assumption.
+  - apply Hw. apply setitem_body_ok; [|assumption]. unfold own_lines in Ho.
+    apply andb_true_iff in Ho. destruct Ho as [Ho _]. apply andb_true_iff in Ho. destruct Ho as [Ho _].
+    apply andb_true_iff in Ho. now destruct Ho.
+  - rewrite <- (value_str_setitem_raw (f_comment v) (f_name v) V) by assumption.
+    assert (Hr : f_rest v = COLON :: setitem_raw V).
+    { apply Hw. apply setitem_body_ok; [|assumption]. unfold own_lines in Ho.
+      apply andb_true_iff in Ho. destruct Ho as [Ho _]. apply andb_true_iff in Ho. destruct Ho as [Ho _].
+      apply andb_true_iff in Ho. now destruct Ho. }
+    unfold value_str. cbn [f_rest]. now rewrite Hr.
+Qed.
+
+(** after a delete the name is gone *)
+Lemma getitem_deleted p p' n l1 f l2 k' :
+  para_inv p = true -> para_inv p' = true ->
+  para_fields p = l1 ++ f :: l2 -> has_name n f = true -> para_fields p' = l1 ++ l2 ->
+  plain_key k' = true -> name_eqb (key_name k') n = true ->
+  getitem p' k' = Err KeyError.
+Proof.
+  intros Hp Hp' Hpf Hf Hpf' Hk Hn.
+  rewrite getitem_fields by assumption. rewrite Hpf'. unfold read_name.
+  apply para_inv_fields in Hp. rewrite Hpf in Hp.
+  destruct (fields_inv_absent_before _ _ _ _ Hp Hf) as [H1 H2].
+  assert (Hab : absent (key_name k') (l1 ++ l2) = true).
+  { rewrite (absent_cong _ _ _ Hn), absent_app. now rewrite H1, H2. }
+  destruct (List.find (has_name (key_name k')) (l1 ++ l2)) as [g|] eqn:Ef; [|reflexivity].
+  apply find_some_split in Ef. destruct Ef as [m1 [m2 [E [_ Hg]]]]. rewrite E in Hab.
+  rewrite absent_app in Hab. cbn [absent forallb] in Hab. rewrite Hg in Hab. cbn in Hab.
+  now rewrite andb_false_r in Hab.
+Qed.
+
+(** * Part 10 : re-reading the text of a paragraph gives its fields back *)
+
+(** ** lines of composed texts *)
+
+Lemma lines_acc_cur s : forall cur,
+  s <> [] ->
+  lines_acc s cur = match lines_acc s [] with l :: ls => (rev cur ++ l) :: ls | [] => [] end.
+Proof.
+  induction s as [|x s IH]; intros cur Hs; [congruence|].
+  cbn [lines_acc]. destruct (N.eqb_spec x LF) as [->|Hne]; [reflexivity|].
+  destruct s as [|y s].
+  - reflexivity.
+  - rewrite (IH (x :: cur)), (IH [x]) by discriminate.
+    pose proof (lines_acc_nonempty (y :: s) [] ltac:(discriminate)) as Hl.
+    destruct (lines_acc (y :: s) []) as [|l ls]; [congruence|]. cbn [rev app].
+    now rewrite <- app_assoc.
+Qed.
+
+Lemma lines_acc_app_closed a : forall b cur,
+  ends_nl a = true -> lines_acc (a ++ b) cur = lines_acc a cur ++ lines_acc b [].
+Proof.
+  induction a as [|x a IH]; intros b cur H; [discriminate|].
+  cbn [app lines_acc]. destruct (N.eqb_spec x LF) as [->|Hne].
+  - cbn [app]. f_equal. destruct a as [|y a]; [reflexivity|]. apply IH.
+    now rewrite ends_nl_cons in H by discriminate.
+  - destruct a as [|y a].
+    + unfold ends_nl in H. cbn in H. apply N.eqb_eq in H. congruence.
+    + apply IH. now rewrite ends_nl_cons in H by discriminate.
+Qed.
+
+Lemma lf_lines_app_closed a b : closed a = true -> lf_lines (a ++ b) = lf_lines a ++ lf_lines b.
+Proof.
+  intros H. rewrite !lf_lines_acc. unfold closed in H. destruct a as [|x a]; [reflexivity|].
+  cbn [is_nil orb] in H. now apply lines_acc_app_closed.
+Qed.
+
+Lemma lines_acc_nolf n : forall s cur,
+  forallb (fun c => negb (c =? LF)%N) n = true -> lines_acc (n ++ s) cur = lines_acc s (rev n ++ cur).
+Proof.
+  induction n as [|x n IH]; intros s cur H; [reflexivity|].
+  cbn [forallb] in H. apply andb_true_iff in H. destruct H as [Hx H]. apply negb_true_iff in Hx.
+  cbn [app lines_acc]. rewrite Hx, IH by exact H. cbn [rev]. now rewrite <- app_assoc.
+Qed.
+
+Lemma lf_lines_name_rest n rest :
+  forallb (fun c => negb (c =? LF)%N) n = true -> rest <> [] ->
+  lf_lines (n ++ rest) = match lf_lines rest with r1 :: bl => (n ++ r1) :: bl | [] => [] end.
+Proof.
+  intros Hn Hr. rewrite !lf_lines_acc, lines_acc_nolf by exact Hn. rewrite app_nil_r.
+  rewrite lines_acc_cur by exact Hr. now rewrite rev_involutive.
+Qed.
+
+(** physical lines: LF-terminated, no LF inside *)
+Definition phys (l : str) : bool := ends_nl l && negb (mem_char LF (removelast l)).
+
+Lemma mem_char_forallb c s : negb (mem_char c s) = forallb (fun x => negb (x =? c)%N) s.
+Proof.
+  unfold mem_char. induction s as [|x s IH]; [reflexivity|]. cbn [existsb forallb].
+  rewrite negb_orb, IH. now rewrite (N.eqb_sym c x).
+Qed.
+
+Lemma lf_lines_concat_phys ls : forallb phys ls = true -> lf_lines (concat ls) = ls.
+Proof.
+  induction ls as [|l ls IH]; [reflexivity|]. cbn [forallb concat]. intros H.
+  apply andb_true_iff in H. destruct H as [Hl H]. unfold phys in Hl.
+  apply andb_true_iff in Hl. destruct Hl as [He Hm]. apply ends_nl_split in He. destruct He as [l0 ->].
+  rewrite removelast_last in Hm. rewrite mem_char_forallb in Hm.
+  rewrite lf_lines_acc, <- app_assoc. cbn [app]. rewrite lines_acc_prefix by exact Hm.
+  cbn [rev app]. f_equal. rewrite <- lf_lines_acc. now apply IH.
+Qed.
+
+(** ** how the pieces of a well-formed field are classified *)
+
+Lemma classify_hash b c : starts_hash c = true -> classify b c = LComment.
+Proof.
+  destruct c as [|h c]; [discriminate|]. unfold starts_hash. intros H.
+  apply N.eqb_eq in H. subst h. reflexivity.
+Qed.
+
+Lemma name_first_bounds c : name_first c = true -> (33 <= c <= 127)%N.
+Proof. unfold name_first. intros H. lia. Qed.
+
+Lemma name_char_bounds c : name_char c = true -> (33 <= c <= 127)%N.
+Proof. unfold name_char. intros H. lia. Qed.
+
+Lemma visible_not_space c : (33 <= c <= 127)%N -> py_isspace c = false.
+Proof.
+  intros H. unfold py_isspace, in_ranges.
+  assert (Hall : forallb (fun r => (snd r <? 33)%N || (127 <? fst r)%N) py_space_ranges = true) by reflexivity.
+  destruct (existsb (fun r => (fst r <=? c)%N && (c <=? snd r)%N) py_space_ranges) eqn:E; [|reflexivity].
+  apply existsb_exists in E. destruct E as [r [Hr E]]. rewrite forallb_forall in Hall.
+  specialize (Hall r Hr). lia.
+Qed.
+
+Lemma classify_field_line b n r1 :
+  name_ok n = true -> colon_first r1 = true -> classify b (n ++ r1) = LField n r1.
+Proof.
+  intros Hn Hr. unfold name_ok in Hn. destruct n as [|c n0]; [discriminate|].
+  apply andb_true_iff in Hn. destruct Hn as [Hc Hall].
+  destruct r1 as [|d r1]; [discriminate|]. cbn [colon_first] in Hr. apply N.eqb_eq in Hr. subst d.
+  pose proof (name_first_bounds c Hc) as Hb.
+  unfold classify, Doc.is_ws_line. cbn [app forallb].
+  rewrite (visible_not_space c Hb). cbn [andb is_nil negb].
+  destruct (N.eqb_spec c HASH) as [->|_]; [discriminate Hc|].
+  destruct (N.eqb_spec c SP) as [->|_]; [discriminate Hc|].
+  destruct (N.eqb_spec c TAB) as [->|_]; [discriminate Hc|]. cbn [orb].
+  unfold match_field_line. rewrite Hc.
+  change (c :: n0 ++ COLON :: r1) with ((c :: n0) ++ COLON :: r1).
+  rewrite span_forall_app by (try exact Hall; reflexivity). now rewrite N.eqb_refl.
+Qed.
+
+(** ** the scanner on the lines of well-formed fields *)
+
+Lemma scan_fields_comments cl : forall L cur pend,
+  forallb starts_hash cl = true ->
+  scan_fields (cl ++ L) cur pend = scan_fields L cur (pend ++ concat cl).
+Proof.
+  induction cl as [|c cl IH]; intros L cur pend H.
+  - cbn. now rewrite app_nil_r.
+  - cbn [forallb] in H. apply andb_true_iff in H. destruct H as [Hc H].
+    cbn [app scan_fields]. rewrite (classify_hash _ c Hc), IH by exact H.
+    cbn [concat]. now rewrite app_assoc.
+Qed.
+
+Lemma scan_fields_cons l ls cur pend :
+  scan_fields (l :: ls) cur pend =
+  match classify (match cur with Some _ => true | None => false end) l with
+  | LComment => scan_fields ls cur (pend ++ l)
+  | LCont =>
+      match cur with
+      | Some f => scan_fields ls (Some (mkF (f_comment f) (f_name f) (f_rest f ++ pend ++ l))) []
+      | None => Err ValueError
+      end
+  | LField n r =>
+      do rest <- scan_fields ls (Some (mkF pend n r)) [];
+      Ok (match cur with Some f => f :: rest | None => rest end)
+  | LWs => Err OtherError
+  | LError => Err ValueError
+  end.
+Proof. reflexivity. Qed.
+
+Lemma scan_fields_body bl : forall L c n rest pend,
+  bl <> [] -> forallb body_class bl = true ->
+  match last_opt bl with Some l => cont_class l | None => false end = true ->
+  scan_fields (bl ++ L) (Some (mkF c n rest)) pend
+  = scan_fields L (Some (mkF c n (rest ++ pend ++ concat bl))) [].
+Proof.
+  induction bl as [|l bl IH]; intros L c n rest pend Hne Hall Hlast; [congruence|].
+  cbn [forallb] in Hall. apply andb_true_iff in Hall. destruct Hall as [Hl Hall].
+  cbn [app]. rewrite scan_fields_cons. cbn [f_comment f_name f_rest].
+  destruct bl as [|l2 bl].
+  - cbn [last_opt] in Hlast. unfold cont_class in Hlast.
+    destruct (classify true l); try discriminate. cbn [app concat]. now rewrite app_nil_r.
+  - assert (Hlast' : match last_opt (l2 :: bl) with Some l => cont_class l | None => false end = true)
+      by exact Hlast.
+    unfold body_class in Hl. destruct (classify true l); try discriminate.
+    + rewrite IH by (try discriminate; assumption). cbn [concat]. now rewrite <- !app_assoc.
+    + rewrite IH by (try discriminate; assumption). cbn [concat app]. now rewrite <- !app_assoc.
+Qed.
+
+Definition opt_cons (cur : option field) (r : list field) : list field :=
+  match cur with Some f => f :: r | None => r end.
+
+Lemma field_wf_parts f :
+  field_wf f = true ->
+  closed (f_comment f) = true /\ forallb starts_hash (lf_lines (f_comment f)) = true
+  /\ name_ok (f_name f) = true
+  /\ exists r1 bl, lf_lines (f_rest f) = r1 :: bl /\ colon_first r1 = true /\ body_ok bl = true.
+Proof.
+  unfold field_wf, comment_wf, rest_wf. intros H. apply andb_true_iff in H. destruct H as [H Hr].
+  apply andb_true_iff in H. destruct H as [H Hn]. apply andb_true_iff in H. destruct H as [Hc Hh].
+  repeat split; try assumption.
+  destruct (lf_lines (f_rest f)) as [|r1 bl]; [discriminate|].
+  apply andb_true_iff in Hr. destruct Hr as [H1 H2]. now exists r1, bl.
+Qed.
+
+Lemma concat_lf_lines s : concat (lf_lines s) = s.
+Proof. apply splitlines_keepends_concat. Qed.
+
+Lemma scan_field_lines f L cur :
+  field_wf f = true ->
+  scan_fields (flines f ++ L) cur [] = do r <- scan_fields L (Some f) []; Ok (opt_cons cur r).
+Proof.
+  intros Hwf. destruct (field_wf_parts _ Hwf) as [Hc [Hh [Hn [r1 [bl [Hr [Hr1 Hbl]]]]]]].
+  unfold flines. rewrite Hr, <- app_assoc, scan_fields_comments by exact Hh.
+  cbn [app]. rewrite concat_lf_lines. cbn [app]. rewrite scan_fields_cons.
+  rewrite (classify_field_line _ _ _ Hn Hr1).
+  assert (Hf : f = mkF (f_comment f) (f_name f) (r1 ++ concat bl)).
+  { pose proof (concat_lf_lines (f_rest f)) as E. rewrite Hr in E. cbn [concat] in E.
+    destruct f as [c n r]. cbn in *. now rewrite E. }
+  assert (Hbody : scan_fields (bl ++ L) (Some (mkF (f_comment f) (f_name f) r1)) []
+                  = scan_fields L (Some f) []).
+  { unfold body_ok in Hbl. destruct bl as [|b bl].
+    - cbn [app concat] in *. rewrite app_nil_r in Hf. now rewrite <- Hf.
+    - cbn [is_nil orb] in Hbl. apply andb_true_iff in Hbl. destruct Hbl as [H1 H2].
+      rewrite scan_fields_body by (try discriminate; assumption). cbn [app]. now rewrite <- Hf. }
+  rewrite Hbody. destruct (scan_fields L (Some f) []); [|reflexivity]. now destruct cur.
+Qed.
+
+Lemma scan_fields_all fs : forall cur,
+  forallb field_wf fs = true ->
+  scan_fields (concat (map flines fs)) cur [] = Ok (opt_cons cur fs).
+Proof.
+  induction fs as [|f fs IH]; intros cur H.
+  - cbn. now destruct cur.
+  - cbn [forallb] in H. apply andb_true_iff in H. destruct H as [Hf H].
+    cbn [map concat]. rewrite scan_field_lines by exact Hf. now rewrite IH.
+Qed.
+
+Lemma name_ok_no_lf n : name_ok n = true -> forallb (fun c => negb (c =? LF)%N) n = true.
+Proof.
+  unfold name_ok. destruct n as [|c n]; [discriminate|]. intros H.
+  apply andb_true_iff in H. destruct H as [_ H]. rewrite forallb_forall in *. intros x Hx.
+  specialize (H x Hx). apply name_char_bounds in H. apply negb_true_iff, N.eqb_neq. unfold LF. lia.
+Qed.
+
+Lemma lf_lines_field_text f : field_wf f = true -> lf_lines (field_text f) = flines f.
+Proof.
+  intros Hwf. destruct (field_wf_parts _ Hwf) as [Hc [_ [Hn [r1 [bl [Hr _]]]]]].
+  unfold field_text, flines. rewrite lf_lines_app_closed by exact Hc. f_equal.
+  apply lf_lines_name_rest; [now apply name_ok_no_lf|]. intros E. rewrite E in Hr. discriminate.
+Qed.
+
+Lemma field_wf_rest_colon f : field_wf f = true -> rest_colon f = true.
+Proof.
+  intros Hwf. destruct (field_wf_parts _ Hwf) as [_ [_ [_ [r1 [bl [Hr [Hr1 _]]]]]]].
+  pose proof (concat_lf_lines (f_rest f)) as E. rewrite Hr in E. cbn [concat] in E.
+  unfold rest_colon. rewrite <- E. destruct r1; [discriminate|exact Hr1].
+Qed.
+
+Lemma lf_lines_ftext fs :
+  forallb field_wf fs = true -> fields_closed (removelast fs) = true ->
+  lf_lines (ftext fs) = concat (map flines fs).
+Proof.
+  induction fs as [|f fs IH]; [reflexivity|]. cbn [forallb]. intros H Hc.
+  apply andb_true_iff in H. destruct H as [Hf H]. rewrite ftext_cons. cbn [map concat].
+  destruct fs as [|g fs].
+  - unfold ftext. cbn [map concat]. rewrite !app_nil_r. now apply lf_lines_field_text.
+  - change (removelast (f :: g :: fs)) with (f :: removelast (g :: fs)) in Hc.
+    unfold fields_closed in Hc. cbn [forallb] in Hc. apply andb_true_iff in Hc. destruct Hc as [Hfc Hc].
+    rewrite lf_lines_app_closed.
+    + rewrite lf_lines_field_text by exact Hf. f_equal. now apply IH.
+    + pose proof (field_wf_rest_colon _ Hf) as Hrc.
+      rewrite closed_nonempty by now apply field_text_nonempty.
+      now rewrite ends_nl_field_text by now apply rest_colon_nonempty.
+Qed.
+
+(** re-reading the text of a paragraph whose fields are well-formed yields exactly its fields:
+    comments, names as spelled, values, in order *)
+Theorem scan_para_fields fs :
+  forallb field_wf fs = true -> fields_closed (removelast fs) = true ->
+  scan_para (ftext fs) = Ok fs.
+Proof.
+  intros Hwf Hc. unfold scan_para. rewrite lf_lines_ftext by assumption.
+  now rewrite scan_fields_all.
+Qed.
+
+(** ** the field a set builds is well-formed *)
+
+Definition nolf (s : str) : bool := forallb (fun c => negb (c =? LF)%N) s.
+
+Lemma nolf_app a b : nolf (a ++ b) = nolf a && nolf b.
+Proof. apply forallb_app. Qed.
+
+Lemma nolf_removelast s : nolf s = true -> nolf (removelast s) = true.
+Proof. apply forallb_removelast. Qed.
+
+Lemma nolf_rev s : nolf (rev s) = nolf s.
+Proof. apply forallb_rev. Qed.
+
+(** lines produced by splitlines contain LF at most as their last character *)
+Lemma splitlines_aux_inner islb :
+  islb LF = true ->
+  forall n s, length s <= n -> forall cur, nolf cur = true ->
+  forall l, In l (splitlines_aux islb true s cur) -> nolf (removelast l) = true.
+Proof.
+  intros Hlf. induction n as [|n IH]; intros s Hlen cur Hcur l Hin.
+  - destruct s; [|simpl in Hlen; lia]. cbn in Hin. destruct cur as [|c cur]; [contradiction|].
+    destruct Hin as [<-|[]]. apply nolf_removelast. now rewrite nolf_rev.
+  - destruct s as [|x s'].
+    + cbn in Hin. destruct cur as [|c cur]; [contradiction|].
+      destruct Hin as [<-|[]]. apply nolf_removelast. now rewrite nolf_rev.
+    + simpl in Hlen. cbn [splitlines_aux] in Hin. destruct (islb x) eqn:Ex.
+      * destruct s' as [|y s''].
+        -- destruct Hin as [<-|[]]. rewrite removelast_last. now rewrite nolf_rev.
+        -- destruct ((x =? 13)%N && (y =? 10)%N) eqn:Ecr.
+           ++ destruct Hin as [<-|Hin].
+              ** apply andb_true_iff in Ecr. destruct Ecr as [E1 _]. apply N.eqb_eq in E1. subst x.
+                 change (rev cur ++ [13%N; y]) with (rev cur ++ [13%N] ++ [y]).
+                 rewrite app_assoc, removelast_last, nolf_app, nolf_rev, Hcur. reflexivity.
+              ** apply (IH s'' ltac:(simpl in Hlen; lia) [] eq_refl _ Hin).
+           ++ destruct Hin as [<-|Hin].
+              ** rewrite removelast_last. now rewrite nolf_rev.
+              ** apply (IH (y :: s'') ltac:(lia) [] eq_refl _ Hin).
+      * apply (IH s' ltac:(lia) (x :: cur)); [|exact Hin]. unfold nolf. cbn [forallb].
+        fold (nolf cur). rewrite Hcur, andb_true_r. apply negb_true_iff, N.eqb_neq. intros ->. congruence.
+Qed.
+
+Lemma splitlines_inner s l :
+  In l (splitlines py_islinebreak true s) -> nolf (removelast l) = true.
+Proof. intros H. eapply (splitlines_aux_inner py_islinebreak eq_refl (length s) s (le_n _) []); [reflexivity|exact H]. Qed.
+
+Lemma phys_intro l : ends_nl l = true -> nolf (removelast l) = true -> phys l = true.
+Proof.
+  intros H1 H2. unfold phys. rewrite H1. cbn [andb]. rewrite mem_char_forallb. exact H2.
+Qed.
+
+Lemma phys_parts l : phys l = true -> ends_nl l = true /\ nolf (removelast l) = true.
+Proof.
+  unfold phys. intros H. apply andb_true_iff in H. destruct H as [H1 H2].
+  rewrite mem_char_forallb in H2. now split.
+Qed.
+
+(** the value text [scan_body] returns is made of whole body lines *)
+Lemma last_opt_snoc_cons {A} (l : list A) x m :
+  last_opt (l ++ x :: m) = match last_opt m with Some y => Some y | None => Some x end.
+Proof.
+  destruct m as [|y m].
+  - cbn [last_opt]. apply last_opt_app.
+  - rewrite (last_opt_app2 l (x :: y :: m)) by discriminate.
+    change (last_opt (x :: y :: m)) with (last_opt (y :: m)).
+    destruct (last_opt (y :: m)) eqn:E; [reflexivity|]. apply last_opt_none in E. discriminate.
+Qed.
+
+Lemma scan_body_used ls : forall pl acc rest,
+  forallb phys ls = true ->
+  forallb phys pl = true -> forallb body_class pl = true ->
+  scan_body ls (concat pl) acc = Ok rest ->
+  exists bl, rest = acc ++ concat bl /\ body_ok bl = true /\ forallb phys bl = true.
+Proof.
+  induction ls as [|l ls IH]; intros pl acc rest Hls Hpl Hbc H.
+  - injection H as <-. exists []. now rewrite app_nil_r.
+  - cbn [forallb] in Hls. apply andb_true_iff in Hls. destruct Hls as [Hl Hls].
+    rewrite scan_body_cons in H. destruct (classify true l) eqn:Ec.
+    + bind_inv H. injection Hb as <-. exists []. now rewrite app_nil_r.
+    + apply (IH (pl ++ [l]) acc rest Hls).
+      * rewrite forallb_app. cbn [forallb]. now rewrite Hpl, Hl.
+      * rewrite forallb_app. cbn [forallb]. unfold body_class at 2. now rewrite Hbc, Ec.
+      * rewrite concat_app. cbn [concat]. now rewrite app_nil_r.
+    + change (@nil N) with (concat (@nil str)) in H.
+      destruct (IH [] _ _ Hls eq_refl eq_refl H) as [bl [-> [Hbl Hph]]].
+      exists (pl ++ l :: bl). split.
+      * rewrite concat_app. cbn [concat]. now rewrite <- !app_assoc.
+      * split.
+        -- unfold body_ok in *.
+           assert (Hnn : is_nil (pl ++ l :: bl) = false) by (destruct pl; reflexivity).
+           rewrite Hnn. cbn [orb]. rewrite forallb_app. cbn [forallb]. rewrite Hbc.
+           unfold body_class at 1. rewrite Ec. cbn [andb].
+           rewrite last_opt_snoc_cons.
+           destruct bl as [|b bl].
+           ++ cbn [forallb last_opt]. unfold cont_class. now rewrite Ec.
+           ++ cbn [is_nil orb] in Hbl. apply andb_true_iff in Hbl. destruct Hbl as [H1 H2].
+              rewrite H1. cbn [andb].
+              match type of H2 with (match ?t with _ => _ end) = _ => destruct t end;
+                [exact H2|discriminate].
+        -- rewrite forallb_app. cbn [forallb]. now rewrite Hpl, Hl, Hph.
+    + discriminate.
+    + discriminate.
+Qed.
+
+
+Lemma nolf_not_ends s : s <> [] -> nolf (removelast s) = true -> ends_nl s = false -> nolf s = true.
+Proof.
+  intros Hs Hr He. destruct (@exists_last _ s Hs) as [s0 [c ->]]. rewrite removelast_last in Hr.
+  rewrite nolf_app, Hr. cbn [andb]. unfold nolf. cbn [forallb]. rewrite andb_true_r.
+  unfold ends_nl in He. rewrite last_opt_app in He. now rewrite He.
+Qed.
+
+Lemma format_comment_nolf c c' : format_comment c = Ok c' -> nolf (removelast c') = true.
+Proof.
+  unfold format_comment. destruct (is_nil c) eqn:Enil; [now intros [= <-]|].
+  destruct (mem_char LF (removelast c)) eqn:Hm; [discriminate|].
+  assert (Hm' : nolf (removelast c) = true).
+  { unfold nolf. rewrite <- mem_char_forallb. now rewrite Hm. }
+  assert (Hc : c <> []) by (intros ->; discriminate).
+  set (c1 := if ends_nl c then c else py_rstrip c ++ [LF]).
+  assert (H1 : nolf (removelast c1) = true).
+  { subst c1. destruct (ends_nl c) eqn:He; [exact Hm'|]. rewrite removelast_last.
+    pose proof (nolf_not_ends c Hc Hm' He) as Hn.
+    unfold py_rstrip, rstrip_by, rdropwhile. rewrite nolf_rev. apply forallb_dropwhile. now rewrite forallb_rev. }
+  clearbody c1. destruct c1 as [|x c1]; [now intros [= <-]|].
+  destruct (x =? HASH)%N; intros [= <-]; [exact H1|].
+  unfold py_lstrip, lstrip_by.
+  pose proof (span_app py_isspace (x :: c1)) as Hsp. rewrite <- dropwhile_span in Hsp.
+  destruct (dropwhile py_isspace (x :: c1)) as [|y t]; [reflexivity|].
+  change (HASH :: SP :: y :: t) with ([HASH; SP] ++ (y :: t)).
+  rewrite removelast_app by discriminate. rewrite nolf_app.
+  change (nolf [HASH; SP]) with true. cbn [andb].
+  rewrite <- Hsp in H1. rewrite removelast_app in H1 by discriminate.
+  rewrite nolf_app in H1. apply andb_true_iff in H1. now destruct H1.
+Qed.
+
+Lemma map_result_format_comment_nolf l cs :
+  map_result format_comment l = Ok cs -> forallb (fun c => nolf (removelast c)) cs = true.
+Proof.
+  revert cs. induction l as [|c l IH]; intros cs H.
+  - now injection H as <-.
+  - cbn [map_result] in H. bind_inv H. bind_inv Hb. injection Hbb as <-.
+    cbn [forallb]. rewrite (format_comment_nolf _ _ Ha). now apply IH.
+Qed.
+
+Lemma comment_wf_concat cs :
+  forallb starts_hash cs = true -> forallb phys cs = true -> comment_wf (concat cs) = true.
+Proof.
+  intros Hh Hp. unfold comment_wf. rewrite lf_lines_concat_phys by exact Hp. rewrite Hh, andb_true_r.
+  apply forallb_ends_nl_closed. rewrite forallb_forall in *. intros x Hx. now apply phys_parts, Hp.
+Qed.
+
+Lemma comment_wf_nil : comment_wf [] = true.
+Proof. reflexivity. Qed.
+
+(** the field [parse_new_field] returns is well-formed *)
+Lemma parse_new_field_wf comments raw fname cased v :
+  forallb starts_hash comments = true ->
+  forallb (fun c => nolf (removelast c)) comments = true ->
+  validate_raw_lines (splitlines py_islinebreak true (cased ++ [COLON] ++ raw)) = Ok tt ->
+  length cased = length fname ->
+  parse_new_field (comments ++ splitlines py_islinebreak true (cased ++ [COLON] ++ raw)) fname = Ok v ->
+  field_wf v = true.
+Proof.
+  intros Hcs Hin Hval Hlen H.
+  destruct (parse_new_field_shape _ _ _ _ _ Hcs Hval Hlen H)
+    as [Hn [_ [[Hnok Hcnl] [Hc [_ [_ [Hnl [first [others [r' [Hlines [Hfirst Hbody]]]]]]]]]]]].
+  destruct (validate_raw_lines_ok _ Hval) as [Hends _]. rewrite Hlines in Hends.
+  cbn [forallb] in Hends. apply andb_true_iff in Hends. destruct Hends as [Hfe Hoe].
+  assert (Hinner : forall l, In l (first :: others) -> nolf (removelast l) = true).
+  { intros l Hl. rewrite <- Hlines in Hl. now apply splitlines_inner in Hl. }
+  assert (Hphys_o : forallb phys others = true).
+  { apply forallb_forall. intros l Hl. apply phys_intro.
+    - rewrite forallb_forall in Hoe. now apply Hoe.
+    - apply Hinner. now right. }
+  assert (Hphys_r : phys (COLON :: r') = true).
+  { apply phys_intro.
+    - rewrite Hfirst in Hfe. now rewrite ends_nl_app in Hfe by discriminate.
+    - specialize (Hinner first (or_introl eq_refl)). rewrite Hfirst in Hinner.
+      rewrite removelast_app in Hinner by discriminate. rewrite nolf_app in Hinner.
+      apply andb_true_iff in Hinner. now destruct Hinner. }
+  change (@nil N) with (concat (@nil str)) in Hbody.
+  destruct (scan_body_used others [] _ _ Hphys_o eq_refl eq_refl Hbody) as [bl [Hrest [Hbl Hpb]]].
+  unfold field_wf. rewrite Hn, Hnok, Hc. rewrite andb_true_r.
+  apply andb_true_iff. split.
+  - apply comment_wf_concat; [exact Hcs|]. apply forallb_forall. intros c Hc'. apply phys_intro.
+    + rewrite forallb_forall in Hcnl. now apply Hcnl.
+    + rewrite forallb_forall in Hin. now apply Hin.
+  - unfold rest_wf. rewrite Hrest.
+    change ((COLON :: r') ++ concat bl) with (concat ((COLON :: r') :: bl)).
+    rewrite lf_lines_concat_phys by (cbn [forallb]; now rewrite Hphys_r, Hpb).
+    now rewrite Hbl.
+Qed.
+
+(** ** [add_nl] keeps a field well-formed *)
+
+Lemma classify_true_app_lf l :
+  l <> [] -> body_class l = true -> classify true (l ++ [LF]) = classify true l.
+Proof.
+  intros Hl Hb. unfold body_class in Hb. destruct l as [|c l]; [congruence|].
+  unfold classify, Doc.is_ws_line in *. cbn [app is_nil negb andb] in *.
+  change (c :: l ++ [LF]) with ((c :: l) ++ [LF]). rewrite forallb_app. cbn [forallb].
+  change (py_isspace LF) with true. rewrite !andb_true_r.
+  destruct (forallb py_isspace (c :: l)) eqn:Ews; [discriminate|].
+  destruct (c =? HASH)%N; [reflexivity|].
+  destruct ((c =? SP)%N || (c =? TAB)%N); [reflexivity|].
+  destruct (match_field_line (c :: l)) as [[? ?]|]; discriminate.
+Qed.
+
+Lemma body_class_nonempty l : body_class l = true -> l <> [].
+Proof. intros H ->. discriminate. Qed.
+
+Lemma body_ok_map_last bl : body_ok bl = true -> body_ok (map_last app_lf bl) = true.
+Proof.
+  unfold body_ok. destruct bl as [|b bl]; [reflexivity|]. cbn [is_nil orb]. intros H.
+  apply andb_true_iff in H. destruct H as [Hall Hlast].
+  destruct (@exists_last _ (b :: bl)) as [bl0 [lst E]]; [discriminate|]. rewrite E in *.
+  rewrite map_last_snoc. rewrite last_opt_app in *. rewrite forallb_app in *. cbn [forallb] in *.
+  apply andb_true_iff in Hall. destruct Hall as [H0 Hl]. rewrite andb_true_r in Hl.
+  assert (Hne : lst <> []) by now apply body_class_nonempty.
+  assert (Hcl : classify true (app_lf lst) = classify true lst) by now apply classify_true_app_lf.
+  assert (Hnn : is_nil (bl0 ++ [app_lf lst]) = false) by (destruct bl0; reflexivity).
+  rewrite Hnn, H0. cbn [orb andb]. unfold body_class, cont_class in *. now rewrite Hcl, Hl, Hlast.
+Qed.
+
+Lemma field_wf_add_nl f : field_wf f = true -> field_wf (add_nl f) = true.
+Proof.
+  intros Hwf. unfold add_nl. destruct (ends_nl (f_rest f)) eqn:He; [exact Hwf|].
+  unfold field_wf in *. cbn [f_comment f_name f_rest].
+  apply andb_true_iff in Hwf. destruct Hwf as [Hcn Hr]. rewrite Hcn. cbn [andb].
+  unfold rest_wf in *. rewrite lf_lines_acc in *.
+  destruct (f_rest f) as [|c s] eqn:Er; [discriminate|].
+  rewrite lines_acc_app_lf by exact He.
+  destruct (lines_acc (c :: s) []) as [|r1 bl] eqn:El; [discriminate|].
+  apply andb_true_iff in Hr. destruct Hr as [Hr1 Hbl].
+  destruct bl as [|b bl].
+  - cbn [map_last]. unfold app_lf. destruct r1; [discriminate|]. cbn [app colon_first] in *. now rewrite Hr1.
+  - rewrite map_last_cons2 by discriminate. rewrite Hr1. cbn [andb]. now apply body_ok_map_last.
+Qed.
+
+Lemma forallb_field_wf_map_last fs :
+  forallb field_wf fs = true -> forallb field_wf (map_last add_nl fs) = true.
+Proof.
+  induction fs as [|f fs IH]; [reflexivity|]. cbn [forallb]. intros H.
+  apply andb_true_iff in H. destruct H as [Hf H]. destruct fs as [|g fs].
+  - cbn [map_last forallb]. now rewrite field_wf_add_nl.
+  - rewrite map_last_cons2 by discriminate. cbn [forallb]. rewrite Hf. now apply IH.
+Qed.
+
+(** ** every operation keeps the fields of its paragraph well-formed *)
+
+Definition fc_wf (fc : fcomment) : bool :=
+  match fc with FCElem t => comment_wf t | _ => true end.
+
+Lemma field_wf_comment f : field_wf f = true -> comment_wf (f_comment f) = true.
+Proof.
+  unfold field_wf. intros H. apply andb_true_iff in H. destruct H as [H _].
+  apply andb_true_iff in H. now destruct H.
+Qed.
+
+Lemma field_wf_set_comment v c :
+  field_wf v = true -> comment_wf c = true -> field_wf (mkF c (f_name v) (f_rest v)) = true.
+Proof.
+  unfold field_wf. cbn [f_comment f_name f_rest]. intros H Hc.
+  apply andb_true_iff in H. destruct H as [H Hr]. apply andb_true_iff in H. destruct H as [_ Hn].
+  now rewrite Hc, Hn, Hr.
+Qed.
+
+Lemma para_wf_in p f : para_wf p = true -> In f (para_fields p) -> field_wf f = true.
+Proof. unfold para_wf. rewrite forallb_forall. auto. Qed.
+
+Lemma set_raw_core_wf p k raw comments pres fc p' :
+  para_inv p = true -> para_wf p = true ->
+  forallb starts_hash comments = true ->
+  forallb (fun c => nolf (removelast c)) comments = true -> fc_wf fc = true ->
+  set_raw_core p k raw comments pres fc = Ok p' -> para_wf p' = true.
+Proof.
+  intros Hinv Hwf Hcs Hin Hfc H. unfold set_raw_core in H.
+  destruct (p_get p k true) as [original| |e] eqn:Eget;
+    [|now apply p_get_not_amb in Eget|discriminate].
+  cbn [bind] in H.
+  set (cased := match original with Some f => f_name f | None => key_name k end) in *.
+  bind_inv H. destruct x. bind_inv Hb. rename x into v0. bind_inv Hbb. rename x into v.
+  assert (Horig : forall o, original = Some o -> field_wf o = true).
+  { intros o ->. destruct (p_get_some _ _ _ Hinv Eget) as [l1 [l2 [Hpf _]]].
+    apply (para_wf_in p); [exact Hwf|]. rewrite Hpf. apply in_elt. }
+  assert (Hlen : length cased = length (key_name k)).
+  { subst cased. destruct original as [f|]; [|reflexivity].
+    destruct (p_get_some _ _ _ Hinv Eget) as [l1 [l2 [_ [Hf _]]]].
+    now apply name_eqb_length in Hf. }
+  pose proof (parse_new_field_wf _ _ _ _ _ Hcs Hin Ha Hlen Hba) as Hwf0.
+  assert (Hv : field_wf v = true).
+  { destruct (match pres with None => true | Some b => b end).
+    - destruct original as [o|].
+      + apply set_comment_ok in Hbba. destruct Hbba as [-> _].
+        apply field_wf_set_comment; [exact Hwf0|]. now apply field_wf_comment, Horig.
+      + now injection Hbba as <-.
+    - destruct fc as [|l|t].
+      + now injection Hbba as <-.
+      + now injection Hbba as <-.
+      + apply set_comment_ok in Hbba. destruct Hbba as [-> _].
+        now apply field_wf_set_comment. }
+  pose proof (field_wf_rest_colon _ Hv) as Hrc.
+  destruct (p_set_kvpair_spec _ _ _ _ Hinv Hrc Hbbb) as [_ [_ Hcases]].
+  unfold para_wf in *.
+  destruct Hcases as [[l1 [f [l2 [_ [Hpf [_ [_ Hpf']]]]]]]|[_ [_ Hpf']]]; rewrite Hpf'.
+  - rewrite Hpf in Hwf. rewrite forallb_app in *. cbn [forallb] in *.
+    apply andb_true_iff in Hwf. destruct Hwf as [H1 H2]. apply andb_true_iff in H2. destruct H2 as [_ H2].
+    now rewrite H1, Hv, H2.
+  - rewrite forallb_app. cbn [forallb]. rewrite Hv, andb_true_r. now apply forallb_field_wf_map_last.
+Qed.
+
+Lemma set_raw_wf p k raw pres fc p' :
+  para_inv p = true -> para_wf p = true -> fc_wf fc = true ->
+  set_raw p k raw pres fc = Ok p' -> para_wf p' = true.
+Proof.
+  intros Hinv Hwf Hfc H. unfold set_raw in H. bind_inv H. destruct x as [[comments pres'] fc'].
+  unfold raw_args in Ha.
+  destruct pres as [b|]; destruct fc as [|l|t]; try discriminate.
+  - injection Ha as <- <- <-. now apply (set_raw_core_wf p k raw [] (Some b) FCNone).
+  - injection Ha as <- <- <-. now apply (set_raw_core_wf p k raw [] None FCNone).
+  - bind_inv Ha. injection Hab as <- <- <-.
+    apply (set_raw_core_wf p k raw x (Some false) FCNone); try assumption.
+    + now apply map_result_format_comment in Haa.
+    + now apply map_result_format_comment_nolf in Haa.
+  - injection Ha as <- <- <-. now apply (set_raw_core_wf p k raw [] (Some false) (FCElem t)).
+Qed.
+
+Lemma setitem_wf p k value p' :
+  para_inv p = true -> para_wf p = true -> setitem p k value = Ok p' -> para_wf p' = true.
+Proof.
+  intros Hinv Hwf H. unfold setitem in H. bind_inv H. rename x into orig0.
+  set (fc := match orig0 with
+             | Some f => if is_nil (f_comment f) then FCNone else FCElem (f_comment f)
+             | None => FCNone
+             end) in *.
+  assert (Hfc : fc_wf fc = true).
+  { subst fc. destruct orig0 as [f|]; [|reflexivity]. destruct (is_nil (f_comment f)); [reflexivity|].
+    cbn [fc_wf]. apply field_wf_comment. rewrite p_get_lookup_key in Ha by exact Hinv.
+    destruct (p_get p k true) as [o| |e] eqn:Eg; try discriminate. injection Ha as ->.
+    destruct (p_get_some _ _ _ Hinv Eg) as [l1 [l2 [Hpf _]]].
+    apply (para_wf_in p); [exact Hwf|]. rewrite Hpf. apply in_elt. }
+  destruct (split_on_first LF value) as [first [rest|]].
+  - cbv zeta in Hb. now apply (set_raw_wf _ _ _ _ _ _ Hinv Hwf Hfc Hb).
+  - unfold set_simple in Hb. destruct (mem_char LF (py_strip value)); [discriminate|].
+    now apply (set_raw_wf _ _ _ _ _ _ Hinv Hwf Hfc Hb).
+Qed.
+
+Lemma op_on_para_wf o p p' :
+  para_inv p = true -> para_wf p = true -> op_on_para o p = Ok p' -> para_wf p' = true.
+Proof.
+  intros Hinv Hwf H. destruct o as [j k v|j k|j k v pres fc|j k v pres fc]; cbn [op_on_para] in H.
+  - now apply (setitem_wf p k v).
+  - destruct (p_remove_spec _ _ _ Hinv H) as [_ [l1 [f [l2 [Hpf [_ [_ Hpf']]]]]]].
+    unfold para_wf in *. rewrite Hpf' , Hpf in *. rewrite forallb_app in *. cbn [forallb] in Hwf.
+    apply andb_true_iff in Hwf. destruct Hwf as [H1 H2]. apply andb_true_iff in H2. destruct H2 as [_ H2].
+    now rewrite H1, H2.
+  - unfold set_simple in H. destruct (mem_char LF v); [discriminate|].
+    apply (set_raw_wf _ _ _ _ _ _ Hinv Hwf) in H; [exact H|]. now destruct fc.
+  - apply (set_raw_wf _ _ _ _ _ _ Hinv Hwf) in H; [exact H|]. now destruct fc.
+Qed.
+
+Lemma forallb_para_wf_split a p b :
+  forallb para_wf (paras (a ++ Para p :: b))
+  = forallb para_wf (paras a) && (para_wf p && forallb para_wf (paras b)).
+Proof. rewrite paras_app. cbn [paras flat_map app]. now rewrite forallb_app. Qed.
+
+Theorem run_op_wf d o d' : doc_wf d = true -> run_op d o = Ok d' -> doc_wf d' = true.
+Proof.
+  unfold doc_wf. intros H Hr. apply andb_true_iff in H. destruct H as [Hok Hwf].
+  rewrite (run_op_ok_preserved _ _ _ Hok Hr). cbn [andb].
+  destruct (run_op_ok _ _ _ Hr) as [a [p [b [p' [Hs [Hop ->]]]]]].
+  rewrite (split_doc_eq _ _ _ _ _ Hs) in Hwf, Hok. rewrite forallb_para_wf_split in *.
+  apply andb_true_iff in Hwf. destruct Hwf as [Ha Hpb]. apply andb_true_iff in Hpb. destruct Hpb as [Hp Hb].
+  unfold doc_ok in Hok. apply andb_true_iff in Hok. destruct Hok as [Hinv _].
+  rewrite doc_inv_split in Hinv. apply andb_true_iff in Hinv. destruct Hinv as [_ Hinv].
+  apply andb_true_iff in Hinv. destruct Hinv as [Hpi _].
+  now rewrite Ha, Hb, (op_on_para_wf _ _ _ Hpi Hp Hop).
+Qed.
+
+Theorem run_wf ops : forall d, doc_wf d = true -> doc_wf (run d ops) = true.
+Proof.
+  induction ops as [|o ops IH]; intros d H; [exact H|].
+  unfold run. cbn [fold_left]. apply IH. unfold step.
+  destruct (run_op d o) as [d'|e] eqn:E; [|exact H]. now apply (run_op_wf d o).
+Qed.
+
+(** every paragraph of a well-formed document re-reads to its own fields *)
+Theorem paragraphs_reread d j a p b :
+  doc_wf d = true -> split_doc d j = Some (a, p, b) ->
+  scan_para (para_text p) = Ok (para_fields p).
+Proof.
+  unfold doc_wf, doc_ok. intros H Hs. apply andb_true_iff in H. destruct H as [Hok Hwf].
+  apply andb_true_iff in Hok. destruct Hok as [_ Hl].
+  rewrite (split_doc_eq _ _ _ _ _ Hs) in Hwf, Hl. rewrite forallb_para_wf_split in Hwf.
+  apply andb_true_iff in Hwf. destruct Hwf as [_ Hpb]. apply andb_true_iff in Hpb. destruct Hpb as [Hp _].
+  rewrite lines_ok_app in Hl. apply andb_true_iff in Hl. destruct Hl as [_ Hl].
+  apply andb_true_iff in Hl. destruct Hl as [Hl _]. apply andb_true_iff in Hl. destruct Hl as [_ Hi].
+  rewrite para_text_ftext. now apply scan_para_fields.
 Qed.
